@@ -1,6 +1,3530 @@
-//! C01 — not built yet.
-pub const BUILT: bool = false;
-pub fn run(_rep: &mut vx::Report) {}
-pub fn worker_main(_args: &[String]) -> i32 {
-    2
+//! C01 — reading any byte sequence never crashes, hangs or exhausts memory.
+//!
+//! Exhaustive FAULT ENUMERATION (no sampling): a fixed set of small seed files, and for each
+//! of them every member of several mutation families (every numeric token x a boundary
+//! catalogue, every byte position x a menu of byte operations, every truncation length,
+//! exhaustive micro-grammars, nesting depths), each under every parsing preset. Every case is
+//! driven through open -> page_count -> pages -> resources -> content streams -> stream
+//! decoding -> ContentParser -> extract_text (default and layout options).
+//!
+//! Architecture: the supervisor (`run`) hands out ranges of case indices to N worker
+//! subprocesses (`vcheck --worker C01 <tier>`); a worker rebuilds the same case space,
+//! runs each case under `catch_unwind` with a counting allocator (1 GiB cap) and reports one
+//! line per case. A worker that dies or stops answering is killed, the in-flight case is
+//! re-run alone in a fresh process (which also reports the driver phase and stderr class).
+//! The case index is the replay.
+#![allow(clippy::all)]
+#![allow(dead_code)]
+
+use oxidize_pdf::parser::content::ContentParser;
+use oxidize_pdf::parser::{ParseOptions, PdfDocument, PdfObject, PdfReader};
+use oxidize_pdf::text::ExtractionOptions;
+use refpdf::builder::{FileBuilder, Revision, XrefForm};
+use refpdf::filters as rf;
+use refpdf::syntax::{write_obj, Obj};
+use serde_json::{json, Value};
+use std::collections::{BTreeMap, HashMap, HashSet};
+use std::io::{BufRead, BufReader, Write};
+use std::sync::atomic::{AtomicBool, AtomicI32, AtomicIsize, AtomicU64, AtomicUsize, Ordering};
+use std::sync::{mpsc, Mutex};
+use std::time::{Duration, Instant};
+
+pub const BUILT: bool = true;
+
+const MEM_LIMIT: isize = 1 << 30; // 1 GiB of live heap per worker
+const DEADLINE_CPU_S: f64 = 5.0; // per case
+const DEADLINE_WALL_S: f64 = 20.0; // per case when the machine starves the worker
+const CHUNK: u64 = 256;
+
+// =====================================================================================
+// counting allocator (global for the vcheck binary; inert unless a C01 worker switches it on)
+// =====================================================================================
+
+pub mod alloc_track {
+    use super::*;
+    use std::alloc::{GlobalAlloc, Layout, System};
+
+    pub static TRACK: AtomicBool = AtomicBool::new(false);
+    pub static CUR: AtomicIsize = AtomicIsize::new(0);
+    pub static PEAK: AtomicIsize = AtomicIsize::new(0);
+    pub static LIMIT: AtomicIsize = AtomicIsize::new(isize::MAX);
+    pub static FD: AtomicI32 = AtomicI32::new(-1);
+
+    pub struct Counting;
+
+    fn itoa(mut n: u64, buf: &mut [u8; 24]) -> &[u8] {
+        let mut i = buf.len();
+        if n == 0 {
+            i -= 1;
+            buf[i] = b'0';
+        }
+        while n > 0 {
+            i -= 1;
+            buf[i] = b'0' + (n % 10) as u8;
+            n /= 10;
+        }
+        &buf[i..]
+    }
+
+    /// Refused allocation: tell the supervisor (raw write, no buffering), with the first
+    /// library frame of the call stack when it can be had.
+    #[cold]
+    fn refused(size: usize) {
+        let fd = FD.load(Ordering::Relaxed);
+        if fd < 0 {
+            return;
+        }
+        // switch tracking off: the backtrace below allocates, and the process is about to abort
+        TRACK.store(false, Ordering::SeqCst);
+        let mut b = [0u8; 24];
+        let digits = itoa(size as u64, &mut b).to_vec();
+        let site = super::first_library_frame();
+        let mut line = Vec::with_capacity(96);
+        line.extend_from_slice(b"\nM ");
+        line.extend_from_slice(&digits);
+        line.push(b' ');
+        line.extend_from_slice(site.as_bytes());
+        line.push(b'\n');
+        unsafe {
+            libc::write(fd, line.as_ptr() as *const libc::c_void, line.len());
+        }
+    }
+
+    #[inline]
+    fn admit(n: usize) -> bool {
+        if n > (isize::MAX as usize) / 2 {
+            refused(n);
+            return false;
+        }
+        let n = n as isize;
+        let c = CUR.fetch_add(n, Ordering::Relaxed).saturating_add(n);
+        if c > LIMIT.load(Ordering::Relaxed) {
+            CUR.fetch_sub(n, Ordering::Relaxed);
+            refused(n as usize);
+            return false;
+        }
+        PEAK.fetch_max(c, Ordering::Relaxed);
+        true
+    }
+
+    unsafe impl GlobalAlloc for Counting {
+        unsafe fn alloc(&self, l: Layout) -> *mut u8 {
+            if TRACK.load(Ordering::Relaxed) {
+                if !admit(l.size()) {
+                    return std::ptr::null_mut();
+                }
+                let p = System.alloc(l);
+                if p.is_null() {
+                    CUR.fetch_sub(l.size() as isize, Ordering::Relaxed);
+                    refused(l.size());
+                }
+                p
+            } else {
+                System.alloc(l)
+            }
+        }
+        unsafe fn alloc_zeroed(&self, l: Layout) -> *mut u8 {
+            if TRACK.load(Ordering::Relaxed) {
+                if !admit(l.size()) {
+                    return std::ptr::null_mut();
+                }
+                let p = System.alloc_zeroed(l);
+                if p.is_null() {
+                    CUR.fetch_sub(l.size() as isize, Ordering::Relaxed);
+                    refused(l.size());
+                }
+                p
+            } else {
+                System.alloc_zeroed(l)
+            }
+        }
+        unsafe fn dealloc(&self, p: *mut u8, l: Layout) {
+            System.dealloc(p, l);
+            if TRACK.load(Ordering::Relaxed) {
+                CUR.fetch_sub(l.size() as isize, Ordering::Relaxed);
+            }
+        }
+        unsafe fn realloc(&self, p: *mut u8, l: Layout, new_size: usize) -> *mut u8 {
+            if TRACK.load(Ordering::Relaxed) {
+                let old = l.size();
+                if new_size > old && !admit(new_size - old) {
+                    return std::ptr::null_mut();
+                }
+                let q = System.realloc(p, l, new_size);
+                if q.is_null() {
+                    if new_size > old {
+                        CUR.fetch_sub((new_size - old) as isize, Ordering::Relaxed);
+                        refused(new_size);
+                    }
+                } else if new_size < old {
+                    CUR.fetch_sub((old - new_size) as isize, Ordering::Relaxed);
+                }
+                q
+            } else {
+                System.realloc(p, l, new_size)
+            }
+        }
+    }
+}
+
+#[global_allocator]
+static GLOBAL: alloc_track::Counting = alloc_track::Counting;
+
+// ------------------------------------------------------------------ cheap symbolisation
+// std::backtrace's symboliser needs seconds per capture here; the names we need are in the
+// executable's own .symtab, so read that once and look return addresses up ourselves.
+
+struct SymTab {
+    syms: Vec<(u64, u64, String)>,
+    base: u64,
+}
+
+fn rd16(d: &[u8], o: usize) -> u64 {
+    u16::from_le_bytes([d[o], d[o + 1]]) as u64
+}
+fn rd32(d: &[u8], o: usize) -> u64 {
+    u32::from_le_bytes([d[o], d[o + 1], d[o + 2], d[o + 3]]) as u64
+}
+fn rd64(d: &[u8], o: usize) -> u64 {
+    let mut b = [0u8; 8];
+    b.copy_from_slice(&d[o..o + 8]);
+    u64::from_le_bytes(b)
+}
+
+fn load_symtab() -> Option<SymTab> {
+    let d = std::fs::read("/proc/self/exe").ok()?;
+    if d.len() < 0x40 || &d[..4] != b"\x7fELF" || d[4] != 2 || d[5] != 1 {
+        return None;
+    }
+    let shoff = rd64(&d, 0x28) as usize;
+    let shentsize = rd16(&d, 0x3a) as usize;
+    let shnum = rd16(&d, 0x3c) as usize;
+    let sh = |i: usize| shoff + i * shentsize;
+    let mut syms = Vec::new();
+    for i in 0..shnum {
+        let h = sh(i);
+        if h + 0x40 > d.len() || rd32(&d, h + 4) != 2 {
+            continue;
+        }
+        let (off, size, link, ent) = (rd64(&d, h + 0x18) as usize, rd64(&d, h + 0x20) as usize, rd32(&d, h + 0x28) as usize, rd64(&d, h + 0x38) as usize);
+        let sl = sh(link);
+        let (soff, ssize) = (rd64(&d, sl + 0x18) as usize, rd64(&d, sl + 0x20) as usize);
+        if ent == 0 || off + size > d.len() || soff + ssize > d.len() {
+            continue;
+        }
+        let strtab = &d[soff..soff + ssize];
+        for k in 0..size / ent {
+            let e = off + k * ent;
+            let info = d[e + 4];
+            let value = rd64(&d, e + 8);
+            if info & 0xf != 2 || value == 0 {
+                continue;
+            }
+            let no = rd32(&d, e) as usize;
+            if no >= strtab.len() {
+                continue;
+            }
+            let end = strtab[no..].iter().position(|c| *c == 0).map(|p| no + p).unwrap_or(strtab.len());
+            syms.push((value, rd64(&d, e + 16), String::from_utf8_lossy(&strtab[no..end]).to_string()));
+        }
+    }
+    syms.sort();
+    let anchor = syms.iter().find(|s| s.2.contains("3c0111worker_main"))?.0;
+    let base = (worker_main as usize as u64).wrapping_sub(anchor);
+    Some(SymTab { syms, base })
+}
+
+static SYMTAB: std::sync::OnceLock<Option<SymTab>> = std::sync::OnceLock::new();
+
+fn symbol_of(ip: u64) -> Option<&'static str> {
+    let st = SYMTAB.get_or_init(load_symtab).as_ref()?;
+    let a = ip.wrapping_sub(st.base);
+    let i = st.syms.partition_point(|s| s.0 <= a);
+    if i == 0 {
+        return None;
+    }
+    let s = &st.syms[i - 1];
+    if a < s.0 + s.1.max(1) {
+        Some(s.2.as_str())
+    } else {
+        None
+    }
+}
+
+/// Path segments of a legacy-mangled Rust symbol (`_ZN..E`), hash dropped.
+fn demangle_idents(m: &str) -> Vec<String> {
+    let mut out = Vec::new();
+    let Some(mut r) = m.strip_prefix("_ZN") else { return out };
+    loop {
+        let digits: String = r.chars().take_while(|c| c.is_ascii_digit()).collect();
+        if digits.is_empty() {
+            break;
+        }
+        let n: usize = digits.parse().unwrap_or(0);
+        r = &r[digits.len()..];
+        if n == 0 || n > r.len() {
+            break;
+        }
+        out.push(r[..n].to_string());
+        r = &r[n..];
+    }
+    if out.last().map(|h| h.len() == 17 && h.starts_with('h')).unwrap_or(false) {
+        out.pop();
+    }
+    out
+}
+
+fn tidy_ident(id: &str) -> String {
+    // "_$LT$path..Type$u20$as$u20$Trait$GT$" -> Type ; "Lexer$LT$R$GT$" -> Lexer
+    let id = if let Some(r) = id.strip_prefix("_$LT$") {
+        let r = r.split("$u20$as").next().unwrap_or(r);
+        let r = r.split("$LT$").next().unwrap_or(r);
+        r.rsplit("..").next().unwrap_or(r)
+    } else {
+        id.split('$').next().unwrap_or(id)
+    };
+    id.chars().filter(|c| c.is_ascii_alphanumeric() || *c == '_').collect()
+}
+
+fn library_fn_of(sym: &str) -> Option<String> {
+    if !sym.starts_with("_ZN11oxidize_pdf") {
+        return None;
+    }
+    let ids: Vec<String> = demangle_idents(sym).iter().filter(|i| !i.starts_with("_$u7b$")).map(|i| tidy_ident(i)).filter(|i| !i.is_empty()).collect();
+    let n = ids.len();
+    Some(if n >= 2 { format!("{}::{}", ids[n - 2], ids[n - 1]) } else { ids.join("::") })
+}
+
+/// The library function that occurs most often among the innermost 128 frames (the one a
+/// runaway recursion goes through); ties are broken alphabetically.
+fn recursing_library_frame() -> String {
+    let mut buf = [std::ptr::null_mut::<libc::c_void>(); 128];
+    let n = unsafe { libc::backtrace(buf.as_mut_ptr(), buf.len() as libc::c_int) };
+    let mut names: Vec<String> = Vec::new();
+    for ip in buf.iter().take(n.max(0) as usize) {
+        if let Some(f) = symbol_of((*ip as u64).wrapping_sub(1)).and_then(library_fn_of) {
+            names.push(f);
+        }
+    }
+    // functions on a recursion cycle occur equally often give or take one: among those
+    // within one of the maximum take the alphabetically first, so the answer does not depend
+    // on where exactly the stack ran out
+    let count = |f: &String| names.iter().filter(|x| *x == f).count();
+    let max = names.iter().map(count).max().unwrap_or(0);
+    let mut cands: Vec<&String> = names.iter().filter(|f| count(f) + 1 >= max).collect();
+    cands.sort();
+    cands.first().map(|s| s.to_string()).unwrap_or_else(|| "unknown".into())
+}
+
+/// All library frames of the current call stack, outermost first, joined by '>'.
+fn library_stack() -> String {
+    let mut buf = [std::ptr::null_mut::<libc::c_void>(); 128];
+    let n = unsafe { libc::backtrace(buf.as_mut_ptr(), buf.len() as libc::c_int) };
+    let mut names: Vec<String> = Vec::new();
+    for ip in buf.iter().take(n.max(0) as usize) {
+        if let Some(f) = symbol_of((*ip as u64).wrapping_sub(1)).and_then(library_fn_of) {
+            if names.last() != Some(&f) {
+                names.push(f);
+            }
+        }
+    }
+    names.reverse();
+    if names.is_empty() {
+        "unknown".into()
+    } else {
+        names.join(">")
+    }
+}
+
+/// First frame of the current call stack that belongs to the library, as `module::function`.
+fn first_library_frame() -> String {
+    let mut buf = [std::ptr::null_mut::<libc::c_void>(); 128];
+    let n = unsafe { libc::backtrace(buf.as_mut_ptr(), buf.len() as libc::c_int) };
+    for ip in buf.iter().take(n.max(0) as usize) {
+        let Some(sym) = symbol_of((*ip as u64).wrapping_sub(1)) else { continue };
+        if !sym.starts_with("_ZN11oxidize_pdf") {
+            continue;
+        }
+        let ids: Vec<String> = demangle_idents(sym).iter().filter(|i| !i.starts_with("_$u7b$")).map(|i| tidy_ident(i)).filter(|i| !i.is_empty()).collect();
+        let n = ids.len();
+        return if n >= 2 { format!("{}::{}", ids[n - 2], ids[n - 1]) } else { ids.join("::") };
+    }
+    "unknown".into()
+}
+
+// =====================================================================================
+// panic capture in the worker: message, file, enclosing function
+// =====================================================================================
+
+thread_local! {
+    static LAST_PANIC: std::cell::RefCell<Option<(String, String, u32)>> = const { std::cell::RefCell::new(None) };
+    static LAST_FRAME: std::cell::RefCell<Option<String>> = const { std::cell::RefCell::new(None) };
+    static FN_CACHE: std::cell::RefCell<HashMap<(String, u32), String>> = std::cell::RefCell::new(HashMap::new());
+    static FRAME_CACHE: std::cell::RefCell<HashMap<(String, u32), String>> = std::cell::RefCell::new(HashMap::new());
+}
+
+fn install_worker_panic_hook() {
+    std::panic::set_hook(Box::new(|info| {
+        let msg = if let Some(s) = info.payload().downcast_ref::<&str>() {
+            s.to_string()
+        } else if let Some(s) = info.payload().downcast_ref::<String>() {
+            s.clone()
+        } else {
+            "<non-string panic>".to_string()
+        };
+        let (file, line) = info.location().map(|l| (l.file().to_string(), l.line())).unwrap_or_default();
+        if !file.contains("oxidize-pdf-core") {
+            // panic raised inside std or a dependency: name the library frame that called it
+            // (not cached: one std location, e.g. Iterator::sum, serves many library callers)
+            let fr = first_library_frame();
+            LAST_FRAME.with(|p| *p.borrow_mut() = Some(fr));
+        } else {
+            LAST_FRAME.with(|p| *p.borrow_mut() = None);
+        }
+        LAST_PANIC.with(|p| *p.borrow_mut() = Some((msg, file, line)));
+    }));
+}
+
+/// Name of the function whose body contains `line` of `file` (nearest preceding `fn`). When
+/// the text of the panicking line occurs more than once between the `fn` line and `line`,
+/// "#k" (k = which occurrence) is appended, so that two identical expressions in one
+/// function are still two sites, without depending on line numbers.
+fn enclosing_fn(file: &str, line: u32) -> String {
+    let k = (file.to_string(), line);
+    if let Some(f) = FN_CACHE.with(|c| c.borrow().get(&k).cloned()) {
+        return f;
+    }
+    let mut cands: Vec<std::path::PathBuf> = vec![file.into()];
+    cands.push(vx::repo_root().join("oxidize-pdf-core").join(file));
+    cands.push(vx::repo_root().join(file));
+    let mut name = "unknown".to_string();
+    for c in cands {
+        if let Ok(src) = std::fs::read_to_string(&c) {
+            let lines: Vec<&str> = src.lines().collect();
+            let at = (line as usize).min(lines.len());
+            let mut i = at;
+            while i > 0 {
+                i -= 1;
+                let t = lines[i].trim_start();
+                let t2 = t
+                    .trim_start_matches("pub(crate) ")
+                    .trim_start_matches("pub(super) ")
+                    .trim_start_matches("pub ")
+                    .trim_start_matches("const ")
+                    .trim_start_matches("unsafe ")
+                    .trim_start_matches("async ");
+                if let Some(rest) = t2.strip_prefix("fn ") {
+                    name = rest.chars().take_while(|c| c.is_ascii_alphanumeric() || *c == '_').collect();
+                    if at >= 1 {
+                        // which expression of the function: a short hash of the line's text
+                        // (stable against line shifts) and, for repeated identical lines, which one
+                        let text = lines[at - 1].trim();
+                        let occ = lines[i..at].iter().filter(|l| l.trim() == text).count();
+                        name.push_str(&format!("@{:04x}", vx::h64(text) & 0xffff));
+                        if occ > 1 {
+                            name.push_str(&format!("#{occ}"));
+                        }
+                    }
+                    break;
+                }
+            }
+            break;
+        }
+    }
+    FN_CACHE.with(|c| c.borrow_mut().insert(k, name.clone()));
+    name
+}
+
+fn msg_class(msg: &str) -> String {
+    let mut o = String::new();
+    let mut in_num = false;
+    for ch in msg.chars() {
+        if ch.is_ascii_digit() {
+            if !in_num {
+                o.push('N');
+            }
+            in_num = true;
+        } else {
+            in_num = false;
+            o.push(if ch.is_ascii_alphanumeric() || " _:-.;()".contains(ch) { ch } else { '_' });
+        }
+        if o.len() >= 48 {
+            break;
+        }
+    }
+    o.trim().to_string()
+}
+
+/// Run `f`; a panic becomes `Err((key, detail))`.
+fn guard_case<T>(f: impl FnOnce() -> T) -> Result<T, (String, String)> {
+    match std::panic::catch_unwind(std::panic::AssertUnwindSafe(f)) {
+        Ok(v) => Ok(v),
+        Err(_) => {
+            let (msg, file, line) = LAST_PANIC.with(|p| p.borrow_mut().take()).unwrap_or_else(|| ("panic".into(), String::new(), 0));
+            let frame = LAST_FRAME.with(|p| p.borrow_mut().take());
+            let base = file.rsplit('/').next().unwrap_or("").to_string();
+            let key = match frame {
+                Some(fr) => format!("C01/panic:{}:{}:{}", fr.split("::").next().unwrap_or("lib"), fr.rsplit("::").next().unwrap_or("unknown"), msg_class(&msg)),
+                None => format!("C01/panic:{}:{}:{}", base, enclosing_fn(&file, line), msg_class(&msg)),
+            };
+            let site = file.rsplit("oxidize-pdf-core/").next().unwrap_or(&file).to_string();
+            Err((key, format!("{} @ {}:{}", vx::one_line(&msg, 200), site, line)))
+        }
+    }
+}
+
+// =====================================================================================
+// PDF token scanner: numeric slots outside binary stream data
+// =====================================================================================
+
+fn is_ws(c: u8) -> bool {
+    matches!(c, 0 | 9 | 10 | 12 | 13 | 32)
+}
+fn is_delim(c: u8) -> bool {
+    matches!(c, b'(' | b')' | b'<' | b'>' | b'[' | b']' | b'{' | b'}' | b'/' | b'%')
+}
+fn is_num_tok(t: &[u8]) -> bool {
+    let t = if !t.is_empty() && (t[0] == b'+' || t[0] == b'-') { &t[1..] } else { t };
+    let mut digits = 0;
+    let mut dots = 0;
+    for &c in t {
+        if c.is_ascii_digit() {
+            digits += 1;
+        } else if c == b'.' {
+            dots += 1;
+        } else {
+            return false;
+        }
+    }
+    digits >= 1 && dots <= 1
+}
+
+#[derive(Clone, Copy, PartialEq, Eq, Debug)]
+enum Kind {
+    Plain,
+    Version,
+    ObjNum,
+    ObjGen,
+    RefNum,
+    RefGen,
+    XrefHdr,
+    XrefOff,
+    XrefGen,
+    StartXref,
+}
+
+#[derive(Clone, Debug)]
+struct Slot {
+    a: usize,
+    b: usize,
+    group: u32,
+    key: String,
+    kind: Kind,
+    stream: Option<usize>,
+}
+
+#[derive(Clone, Debug)]
+struct StreamInfo {
+    group: u32,
+    a: usize,
+    b: usize,
+    len_slot: Option<usize>,
+    filtered: bool,
+    type_name: String,
+}
+
+#[derive(Clone, Debug, Default)]
+struct Scan {
+    slots: Vec<Slot>,
+    streams: Vec<StreamInfo>,
+    group_start: Vec<usize>,
+    group_label: Vec<String>,
+}
+
+#[derive(Default)]
+struct ScanState {
+    group: u32,
+    last_key: String,
+    prev_key: String,
+    in_xref: bool,
+    pending_startxref: bool,
+    saw_filter: bool,
+    len_slot: Option<usize>,
+    type_name: String,
+}
+
+fn find_sub(h: &[u8], n: &[u8], from: usize) -> Option<usize> {
+    if n.is_empty() || h.len() < n.len() || from > h.len() - n.len() {
+        return None;
+    }
+    (from..=h.len() - n.len()).find(|&i| &h[i..i + n.len()] == n)
+}
+
+fn scan_file(bytes: &[u8]) -> Scan {
+    let mut sc = Scan::default();
+    sc.group_label.push("file".into());
+    sc.group_start.push(0);
+    if bytes.starts_with(b"%PDF-") {
+        let mut e = 5;
+        while e < bytes.len() && (bytes[e].is_ascii_digit() || bytes[e] == b'.') {
+            e += 1;
+        }
+        if e > 5 {
+            sc.slots.push(Slot { a: 5, b: e, group: 0, key: "%PDF-".into(), kind: Kind::Version, stream: None });
+        }
+    }
+    let mut st = ScanState::default();
+    scan_range(bytes, 0, bytes.len(), true, &mut st, &mut sc, None);
+    sc
+}
+
+fn scan_range(bytes: &[u8], from: usize, to: usize, structural: bool, st: &mut ScanState, sc: &mut Scan, stream: Option<usize>) {
+    let mut i = from;
+    while i < to {
+        let c = bytes[i];
+        if is_ws(c) {
+            i += 1;
+            continue;
+        }
+        match c {
+            b'%' => {
+                while i < to && bytes[i] != b'\n' && bytes[i] != b'\r' {
+                    i += 1;
+                }
+            }
+            b'(' => {
+                let mut depth = 1;
+                i += 1;
+                while i < to && depth > 0 {
+                    match bytes[i] {
+                        b'\\' => i += 2,
+                        b'(' => {
+                            depth += 1;
+                            i += 1
+                        }
+                        b')' => {
+                            depth -= 1;
+                            i += 1
+                        }
+                        _ => i += 1,
+                    }
+                }
+                st.last_key.clear();
+            }
+            b'<' => {
+                if i + 1 < to && bytes[i + 1] == b'<' {
+                    i += 2;
+                } else {
+                    while i < to && bytes[i] != b'>' {
+                        i += 1;
+                    }
+                    i += 1;
+                }
+                st.last_key.clear();
+            }
+            b'>' => {
+                i += if i + 1 < to && bytes[i + 1] == b'>' { 2 } else { 1 };
+                st.last_key.clear();
+            }
+            b'[' | b']' => i += 1,
+            b'{' | b'}' | b')' => {
+                i += 1;
+                st.last_key.clear();
+            }
+            b'/' => {
+                let s = i + 1;
+                let mut j = s;
+                while j < to && !is_ws(bytes[j]) && !is_delim(bytes[j]) {
+                    j += 1;
+                }
+                let name = String::from_utf8_lossy(&bytes[s..j]).to_string();
+                if structural {
+                    if st.last_key == "Type" {
+                        st.type_name = name.clone();
+                    }
+                    if name == "Filter" {
+                        st.saw_filter = true;
+                    }
+                }
+                st.last_key = name;
+                i = j;
+            }
+            _ => {
+                let s = i;
+                let mut j = i;
+                while j < to && !is_ws(bytes[j]) && !is_delim(bytes[j]) {
+                    j += 1;
+                }
+                let tok = &bytes[s..j];
+                if is_num_tok(tok) {
+                    let kind = if st.pending_startxref {
+                        Kind::StartXref
+                    } else if st.in_xref {
+                        Kind::XrefHdr
+                    } else {
+                        Kind::Plain
+                    };
+                    st.pending_startxref = false;
+                    let idx = sc.slots.len();
+                    sc.slots.push(Slot { a: s, b: j, group: st.group, key: st.last_key.clone(), kind, stream });
+                    if structural && st.last_key == "Length" && kind == Kind::Plain && st.len_slot.is_none() {
+                        st.len_slot = Some(idx);
+                    }
+                } else if structural {
+                    let n = sc.slots.len();
+                    match tok {
+                        b"obj" if n >= 2 => {
+                            let g = sc.group_label.len() as u32;
+                            let label = format!(
+                                "obj {} {}",
+                                String::from_utf8_lossy(&bytes[sc.slots[n - 2].a..sc.slots[n - 2].b]),
+                                String::from_utf8_lossy(&bytes[sc.slots[n - 1].a..sc.slots[n - 1].b])
+                            );
+                            sc.group_label.push(label);
+                            sc.group_start.push(sc.slots[n - 2].a);
+                            sc.slots[n - 2].group = g;
+                            sc.slots[n - 2].kind = Kind::ObjNum;
+                            sc.slots[n - 1].group = g;
+                            sc.slots[n - 1].kind = Kind::ObjGen;
+                            st.group = g;
+                            st.saw_filter = false;
+                            st.len_slot = None;
+                            st.type_name.clear();
+                        }
+                        b"endobj" => st.group = 0,
+                        b"R" if n >= 2 && sc.slots[n - 1].kind == Kind::Plain && sc.slots[n - 2].kind == Kind::Plain => {
+                            sc.slots[n - 2].kind = Kind::RefNum;
+                            sc.slots[n - 1].kind = Kind::RefGen;
+                        }
+                        b"xref" => {
+                            let g = sc.group_label.len() as u32;
+                            sc.group_label.push(format!("xref@{s}"));
+                            sc.group_start.push(s);
+                            st.group = g;
+                            st.in_xref = true;
+                        }
+                        b"n" | b"f" if st.in_xref && n >= 2 => {
+                            sc.slots[n - 2].kind = Kind::XrefOff;
+                            sc.slots[n - 1].kind = Kind::XrefGen;
+                            let flag = String::from_utf8_lossy(tok).to_string();
+                            sc.slots[n - 2].key = flag.clone();
+                            sc.slots[n - 1].key = flag;
+                        }
+                        b"trailer" => {
+                            st.in_xref = false;
+                            let g = sc.group_label.len() as u32;
+                            sc.group_label.push(format!("trailer@{s}"));
+                            sc.group_start.push(s);
+                            st.group = g;
+                        }
+                        b"startxref" => {
+                            st.in_xref = false;
+                            st.pending_startxref = true;
+                            if st.group == 0 {
+                                let g = sc.group_label.len() as u32;
+                                sc.group_label.push(format!("startxref@{s}"));
+                                sc.group_start.push(s);
+                                st.group = g;
+                            }
+                        }
+                        b"stream" => {
+                            let mut ds = j;
+                            if ds < to && bytes[ds] == b'\r' {
+                                ds += 1;
+                            }
+                            if ds < to && bytes[ds] == b'\n' {
+                                ds += 1;
+                            }
+                            let mut de = None;
+                            if let Some(ls) = st.len_slot {
+                                if let Ok(l) = String::from_utf8_lossy(&bytes[sc.slots[ls].a..sc.slots[ls].b]).parse::<usize>() {
+                                    let e = ds + l;
+                                    if e <= to {
+                                        let mut k = e;
+                                        while k < to && (bytes[k] == b'\r' || bytes[k] == b'\n') {
+                                            k += 1;
+                                        }
+                                        if bytes[k..to].starts_with(b"endstream") {
+                                            de = Some(e);
+                                        }
+                                    }
+                                }
+                            }
+                            let es = match de {
+                                Some(e) => find_sub(&bytes[..to], b"endstream", e).unwrap_or(to),
+                                None => find_sub(&bytes[..to], b"endstream", ds).unwrap_or(to),
+                            };
+                            let de = de.unwrap_or_else(|| {
+                                let mut e = es;
+                                if e > ds && bytes[e - 1] == b'\n' {
+                                    e -= 1;
+                                }
+                                if e > ds && bytes[e - 1] == b'\r' {
+                                    e -= 1;
+                                }
+                                e
+                            });
+                            let k = sc.streams.len();
+                            sc.streams.push(StreamInfo { group: st.group, a: ds, b: de, len_slot: st.len_slot, filtered: st.saw_filter, type_name: st.type_name.clone() });
+                            if !st.saw_filter {
+                                let mut inner = ScanState { group: st.group, ..Default::default() };
+                                scan_range(bytes, ds, de, false, &mut inner, sc, Some(k));
+                            }
+                            i = (es + 9).min(to);
+                            st.last_key.clear();
+                            continue;
+                        }
+                        _ => {}
+                    }
+                    st.last_key.clear();
+                } else {
+                    st.last_key.clear();
+                }
+                i = j;
+            }
+        }
+    }
+}
+
+// =====================================================================================
+// seed analysis: offset-bearing tokens, xref-stream payloads, object-stream payloads
+// =====================================================================================
+
+#[derive(Clone, Debug)]
+struct OffTok {
+    slot: usize,
+    target: usize,
+    fixed10: bool,
+}
+
+#[derive(Clone, Debug)]
+struct XrefStm {
+    stream: usize,
+    w: [usize; 3],
+    payload: Vec<u8>,
+    flate: bool,
+    pred: Option<rf::PredParams>,
+}
+
+impl XrefStm {
+    fn row(&self) -> usize {
+        self.w[0] + self.w[1] + self.w[2]
+    }
+    fn rows(&self) -> usize {
+        if self.row() == 0 {
+            0
+        } else {
+            self.payload.len() / self.row()
+        }
+    }
+    fn field(&self, payload: &[u8], r: usize, f: usize) -> u64 {
+        let off = r * self.row() + self.w[..f].iter().sum::<usize>();
+        let mut v = 0u64;
+        for k in 0..self.w[f] {
+            v = (v << 8) | payload[off + k] as u64;
+        }
+        v
+    }
+    fn set_field(&self, payload: &mut [u8], r: usize, f: usize, v: u64) {
+        let off = r * self.row() + self.w[..f].iter().sum::<usize>();
+        let w = self.w[f];
+        for k in 0..w {
+            payload[off + k] = ((v >> (8 * (w - 1 - k))) & 0xff) as u8;
+        }
+    }
+    fn encode(&self, payload: &[u8]) -> Vec<u8> {
+        let d = match &self.pred {
+            Some(p) if p.predictor >= 10 => rf::png_predict_encode(payload, p, &|_| 2),
+            _ => payload.to_vec(),
+        };
+        if self.flate {
+            rf::flate_encode(&d)
+        } else {
+            d
+        }
+    }
+}
+
+#[derive(Clone, Debug)]
+struct ObjStmInfo {
+    stream: usize,
+    flate: bool,
+    first: usize,
+    first_slot: Option<usize>,
+    payload: Vec<u8>,
+    /// numeric tokens of the decoded payload (a, b)
+    toks: Vec<(usize, usize)>,
+    /// header pairs: token indices (num_tok, off_tok) and parsed offset
+    pairs: Vec<(usize, usize, usize)>,
+}
+
+struct Seed {
+    name: String,
+    bytes: Vec<u8>,
+    scan: Scan,
+    offtoks: Vec<OffTok>,
+    xrefstms: Vec<XrefStm>,
+    objstms: Vec<ObjStmInfo>,
+    max_obj: u32,
+    expect_pages: u32,
+    origin: &'static str,
+    values: Vec<Vec<Vec<u8>>>,
+}
+
+fn tok_str(bytes: &[u8], s: &Slot) -> String {
+    String::from_utf8_lossy(&bytes[s.a..s.b]).to_string()
+}
+
+fn analyse(name: &str, bytes: Vec<u8>, expect_pages: u32, origin: &'static str) -> Seed {
+    let scan = scan_file(&bytes);
+    let mut offtoks = Vec::new();
+    let mut max_obj = 0u32;
+    for (i, s) in scan.slots.iter().enumerate() {
+        let v = tok_str(&bytes, s).parse::<usize>().ok();
+        match s.kind {
+            Kind::XrefOff if s.key == "n" => {
+                if let Some(t) = v {
+                    offtoks.push(OffTok { slot: i, target: t, fixed10: s.b - s.a == 10 });
+                }
+            }
+            Kind::StartXref => {
+                if let Some(t) = v {
+                    offtoks.push(OffTok { slot: i, target: t, fixed10: false });
+                }
+            }
+            Kind::Plain if s.stream.is_none() && (s.key == "Prev" || s.key == "XRefStm") => {
+                if let Some(t) = v {
+                    offtoks.push(OffTok { slot: i, target: t, fixed10: false });
+                }
+            }
+            Kind::ObjNum => {
+                if let Some(t) = v {
+                    max_obj = max_obj.max(t as u32);
+                }
+            }
+            _ => {}
+        }
+    }
+    let mut xrefstms = Vec::new();
+    let mut objstms = Vec::new();
+    for (k, s) in scan.streams.iter().enumerate() {
+        if s.type_name != "XRef" && s.type_name != "ObjStm" {
+            continue;
+        }
+        let start = scan.group_start[s.group as usize];
+        let mut p = refpdf::syntax::Parser::new(&bytes, start);
+        let so = match p.indirect_object(&|o| o.as_int()) {
+            Ok((_, _, Obj::Stream(so))) => so,
+            other => {
+                eprintln!("C01 analyse({name}): object at {start} is not a stream: {:?}", other.map(|x| x.2.type_name()));
+                continue;
+            }
+        };
+        let payload = match rf::decode_stream(&so.dict, &so.data) {
+            Ok(p) => p,
+            Err(e) => {
+                eprintln!("C01 analyse({name}): cannot decode stream at {start}: {e}");
+                continue;
+            }
+        };
+        let flate = so.dict.get("Filter").is_some();
+        if s.type_name == "XRef" {
+            let w: Vec<usize> = so.dict.get("W").and_then(|o| o.as_array()).map(|a| a.iter().map(|x| x.as_int().unwrap_or(0).max(0) as usize).collect()).unwrap_or_default();
+            if w.len() != 3 {
+                continue;
+            }
+            let parms = so.dict.get("DecodeParms").and_then(|o| o.as_dict()).cloned();
+            let pp = rf::PredParams::from_dict(parms.as_ref());
+            xrefstms.push(XrefStm { stream: k, w: [w[0], w[1], w[2]], payload, flate, pred: if pp.predictor >= 10 { Some(pp) } else { None } });
+        } else {
+            let first = so.dict.get("First").and_then(|o| o.as_int()).unwrap_or(0).max(0) as usize;
+            let n = so.dict.get("N").and_then(|o| o.as_int()).unwrap_or(0).max(0) as usize;
+            let first_slot = scan.slots.iter().position(|sl| sl.group == s.group && sl.key == "First" && sl.stream.is_none());
+            let mut inner = Scan::default();
+            inner.group_label.push("objstm".into());
+            inner.group_start.push(0);
+            let mut st = ScanState::default();
+            scan_range(&payload, 0, payload.len(), false, &mut st, &mut inner, None);
+            let toks: Vec<(usize, usize)> = inner.slots.iter().map(|x| (x.a, x.b)).collect();
+            let mut pairs = Vec::new();
+            for i in 0..n {
+                if 2 * i + 1 < toks.len() && toks[2 * i + 1].1 <= first {
+                    let off = String::from_utf8_lossy(&payload[toks[2 * i + 1].0..toks[2 * i + 1].1]).parse::<usize>().unwrap_or(0);
+                    pairs.push((2 * i, 2 * i + 1, off));
+                }
+            }
+            objstms.push(ObjStmInfo { stream: k, flate, first, first_slot, payload, toks, pairs });
+        }
+    }
+    let mut seed = Seed { name: name.to_string(), bytes, scan, offtoks, xrefstms, objstms, max_obj, expect_pages, origin, values: Vec::new() };
+    seed.values = (0..seed.scan.slots.len()).map(|i| slot_values(&seed, i)).collect();
+    seed
+}
+
+// ------------------------------------------------------------------ value catalogues
+
+pub const CAT: [&str; 28] = [
+    "-9223372036854775808",
+    "-4294967297",
+    "-2147483648",
+    "-1",
+    "0",
+    "1",
+    "2",
+    "255",
+    "65535",
+    "65536",
+    "2147483647",
+    "2147483648",
+    "4294967295",
+    "4294967296",
+    "9007199254740992",
+    "9223372036854775807",
+    "9223372036854775808",
+    "18446744073709551616",
+    "100000000000000000000",
+    "1e400",
+    "-0.0",
+    ".5",
+    "00000000000000000000007",
+    "+1",
+    "1.",
+    "-",
+    "99999999999999999999999999999999999999999.9",
+    "3.4028236e38",
+];
+
+/// quick tier: the values that sit on a type boundary
+pub const QUICK_CAT: [&str; 14] = ["-9223372036854775808", "-2147483648", "-1", "0", "1", "255", "65536", "2147483647", "4294967295", "4294967296", "9223372036854775807", "18446744073709551616", "1e400", ".5"];
+
+pub const PAIR_CAT: [&str; 10] = ["-2147483648", "-1", "0", "1", "255", "65536", "2147483647", "4294967295", "4294967296", "9223372036854775807"];
+
+/// tier switch for the catalogue (set once by `Space::new` before any seed is analysed)
+static THOROUGH: AtomicBool = AtomicBool::new(false);
+
+fn slot_values(seed: &Seed, i: usize) -> Vec<Vec<u8>> {
+    let s = &seed.scan.slots[i];
+    let old = tok_str(&seed.bytes, s);
+    let cat: &[&str] = if THOROUGH.load(Ordering::Relaxed) { &CAT } else { &QUICK_CAT };
+    let mut v: Vec<Vec<u8>> = cat.iter().map(|x| x.as_bytes().to_vec()).collect();
+    let mut push = |x: String, v: &mut Vec<Vec<u8>>| {
+        let b = x.into_bytes();
+        if !v.contains(&b) {
+            v.push(b);
+        }
+    };
+    if let Ok(o) = old.parse::<i64>() {
+        push((o - 1).to_string(), &mut v);
+        push((o + 1).to_string(), &mut v);
+    }
+    let width = match s.kind {
+        Kind::XrefOff => Some(10),
+        Kind::XrefGen => Some(5),
+        _ => None,
+    };
+    if let Some(w) = width {
+        for c in cat.iter() {
+            if let Ok(n) = c.parse::<u64>() {
+                let p = format!("{:0w$}", n, w = w);
+                if p.len() == w {
+                    push(p, &mut v);
+                }
+            }
+        }
+        push("9".repeat(w), &mut v);
+    }
+    if matches!(s.kind, Kind::RefNum | Kind::ObjNum) {
+        for k in 0..=seed.max_obj + 1 {
+            push(k.to_string(), &mut v);
+        }
+    }
+    v.retain(|x| x.as_slice() != old.as_bytes());
+    v
+}
+
+fn width_values(w: usize, file_len: usize) -> Vec<u64> {
+    if w == 0 {
+        return vec![];
+    }
+    let max = if w >= 8 { u64::MAX } else { (1u64 << (8 * w)) - 1 };
+    let mut v = vec![0u64, 1, 2, 3, 255.min(max), max, max - 1, max / 2, max / 2 + 1, (file_len as u64).min(max), (file_len as u64 + 1).min(max), (file_len as u64).saturating_sub(1).min(max)];
+    v.sort();
+    v.dedup();
+    v
+}
+
+// ------------------------------------------------------------------ edits and offset fix-ups
+
+#[derive(Clone, PartialEq, Eq, Debug)]
+struct Edit {
+    a: usize,
+    b: usize,
+    new: Vec<u8>,
+}
+
+fn apply_edits(bytes: &[u8], edits: &[Edit]) -> Vec<u8> {
+    let mut es: Vec<&Edit> = edits.iter().collect();
+    es.sort_by_key(|e| (e.a, e.b));
+    let mut out = Vec::with_capacity(bytes.len() + 64);
+    let mut pos = 0;
+    for e in es {
+        if e.a < pos {
+            continue; // overlapping edit: the earlier one wins
+        }
+        out.extend_from_slice(&bytes[pos..e.a]);
+        out.extend_from_slice(&e.new);
+        pos = e.b;
+    }
+    out.extend_from_slice(&bytes[pos..]);
+    out
+}
+
+fn shift_map(edits: &[Edit], pos: usize) -> usize {
+    let mut d: isize = 0;
+    for e in edits {
+        if e.b <= pos && !(e.a == e.b && e.a == pos) {
+            d += e.new.len() as isize - (e.b - e.a) as isize;
+        } else if e.a == e.b && e.a == pos {
+            // insertion exactly at a target: the target moves behind the inserted bytes
+            d += e.new.len() as isize;
+        }
+    }
+    (pos as isize + d).max(0) as usize
+}
+
+fn overlaps(x: &Edit, y: &Edit) -> bool {
+    x.a < y.b && y.a < x.b || (x.a == y.a && x.b == y.b)
+}
+
+/// Apply `base` edits and then repair everything that only records *where things are*:
+/// /Length of the streams edited inside, xref-table offsets, startxref, /Prev, /XRefStm and
+/// the offsets inside xref-stream payloads. Slots in `skip` are the ones being mutated.
+fn with_fixups(seed: &Seed, base: &[Edit], skip: &[usize]) -> Vec<u8> {
+    let sc = &seed.scan;
+    let mut fix: Vec<Edit> = Vec::new();
+    for _ in 0..6 {
+        let mut all: Vec<Edit> = base.to_vec();
+        all.extend(fix.iter().cloned());
+        let mut nf: Vec<Edit> = Vec::new();
+        for s in sc.streams.iter() {
+            let Some(ls) = s.len_slot else { continue };
+            if skip.contains(&ls) {
+                continue;
+            }
+            let mut d: isize = 0;
+            for e in &all {
+                if e.a >= s.a && e.b <= s.b {
+                    d += e.new.len() as isize - (e.b - e.a) as isize;
+                }
+            }
+            if d != 0 {
+                let old = (s.b - s.a) as isize;
+                nf.push(Edit { a: sc.slots[ls].a, b: sc.slots[ls].b, new: (old + d).max(0).to_string().into_bytes() });
+            }
+        }
+        for ot in &seed.offtoks {
+            if skip.contains(&ot.slot) {
+                continue;
+            }
+            let nt = shift_map(&all, ot.target);
+            if nt != ot.target {
+                let sl = &sc.slots[ot.slot];
+                let txt = if ot.fixed10 { format!("{nt:010}") } else { nt.to_string() };
+                nf.push(Edit { a: sl.a, b: sl.b, new: txt.into_bytes() });
+            }
+        }
+        for xs in &seed.xrefstms {
+            let s = &sc.streams[xs.stream];
+            if base.iter().any(|e| e.a >= s.a && e.b <= s.b) {
+                continue;
+            }
+            let mut rows = xs.payload.clone();
+            let mut changed = false;
+            for r in 0..xs.rows() {
+                let ty = if xs.w[0] == 0 { 1 } else { xs.field(&rows, r, 0) };
+                if ty == 1 && xs.w[1] > 0 {
+                    let off = xs.field(&rows, r, 1) as usize;
+                    let nt = shift_map(&all, off);
+                    if nt != off {
+                        xs.set_field(&mut rows, r, 1, nt as u64);
+                        changed = true;
+                    }
+                }
+            }
+            if changed {
+                nf.push(Edit { a: s.a, b: s.b, new: xs.encode(&rows) });
+            }
+        }
+        nf.retain(|f| !base.iter().any(|b| overlaps(f, b)));
+        if nf == fix {
+            break;
+        }
+        fix = nf;
+    }
+    let mut all: Vec<Edit> = base.to_vec();
+    all.extend(fix);
+    apply_edits(&seed.bytes, &all)
+}
+
+// =====================================================================================
+// seed files
+// =====================================================================================
+
+fn nm(s: &str) -> Obj {
+    Obj::name(s)
+}
+fn int(v: i64) -> Obj {
+    Obj::Int(v)
+}
+fn rf_(n: u32) -> Obj {
+    Obj::Ref(n, 0)
+}
+fn arr(v: Vec<Obj>) -> Obj {
+    Obj::Array(v)
+}
+fn dict(e: Vec<(&str, Obj)>) -> Obj {
+    Obj::dict(e)
+}
+fn helv() -> Obj {
+    dict(vec![("Type", nm("Font")), ("Subtype", nm("Type1")), ("BaseFont", nm("Helvetica")), ("Encoding", nm("WinAnsiEncoding"))])
+}
+fn resources() -> Obj {
+    dict(vec![("Font", dict(vec![("F1", helv())]))])
+}
+fn media() -> Obj {
+    arr(vec![int(0), int(0), int(612), int(792)])
+}
+fn page(parent: u32, contents: u32, extra: Vec<(&str, Obj)>) -> Obj {
+    let mut e = vec![("Type", nm("Page")), ("Parent", rf_(parent)), ("MediaBox", media()), ("Resources", resources()), ("Contents", rf_(contents))];
+    e.extend(extra);
+    dict(e)
+}
+fn catalog(pages: u32) -> Obj {
+    dict(vec![("Type", nm("Catalog")), ("Pages", rf_(pages))])
+}
+fn pages_node(kids: &[u32], count: i64, extra: Vec<(&str, Obj)>) -> Obj {
+    let mut e = vec![("Type", nm("Pages")), ("Kids", arr(kids.iter().map(|k| rf_(*k)).collect())), ("Count", int(count))];
+    e.extend(extra);
+    dict(e)
+}
+fn stream(e: Vec<(&str, Obj)>, data: &[u8]) -> Obj {
+    Obj::stream(e, data.to_vec())
+}
+
+const CONTENT_1: &[u8] = b"BT /F1 12 Tf 72 720 Td (Hello page 1) Tj 0 -14 Td (second line) Tj ET";
+const CONTENT_2: &[u8] = b"q 1 0 0 1 10 10 cm 0.5 g 10 10 100 50 re f Q BT /F1 9.5 Tf 1 0 0 1 72 700 Tm [(A) -120 (B)] TJ T* (C) ' ET";
+
+fn two_page_objects() -> Vec<(u32, Obj)> {
+    vec![
+        (1, catalog(2)),
+        (2, pages_node(&[3, 5], 2, vec![])),
+        (3, page(2, 4, vec![])),
+        (4, stream(vec![], CONTENT_1)),
+        (5, page(2, 6, vec![("Rotate", int(90))])),
+        (6, stream(vec![], CONTENT_2)),
+        (7, dict(vec![("Title", Obj::str(b"classic")), ("Producer", Obj::str(b"refpdf"))])),
+    ]
+}
+
+fn build_one(objs: Vec<(u32, Obj)>, form: XrefForm, objstm: bool, pred: bool, info: Option<u32>) -> Vec<u8> {
+    let mut r = Revision::new(form);
+    r.xref_predictor = pred;
+    for (n, o) in objs {
+        if objstm && !matches!(o, Obj::Stream(_)) {
+            r.in_objstm.insert(n);
+        }
+        r.add(n, o);
+    }
+    let mut fb = FileBuilder::new(1);
+    fb.info = info.map(|n| (n, 0));
+    fb.revisions.push(r);
+    fb.build().bytes
+}
+
+fn seed_classic() -> Vec<u8> {
+    build_one(two_page_objects(), XrefForm::Table, false, false, Some(7))
+}
+
+fn seed_xrefstm_objstm() -> Vec<u8> {
+    build_one(two_page_objects(), XrefForm::Stream, true, true, Some(7))
+}
+
+fn seed_two_rev() -> Vec<u8> {
+    let mut r1 = Revision::new(XrefForm::Table);
+    r1.add(1, catalog(2));
+    r1.add(2, pages_node(&[3], 1, vec![]));
+    r1.add(3, page(2, 4, vec![]));
+    r1.add(4, stream(vec![], CONTENT_1));
+    r1.add(5, int(1));
+    r1.add(6, int(2));
+    let mut r2 = Revision::new(XrefForm::Table);
+    r2.add(4, stream(vec![], b"BT /F1 10 Tf 50 500 Td (revised) Tj ET"));
+    r2.add(5, int(7));
+    r2.free.push((6, 1));
+    let mut fb = FileBuilder::new(1);
+    fb.revisions.push(r1);
+    fb.revisions.push(r2);
+    fb.build().bytes
+}
+
+fn seed_a85_lzw() -> Vec<u8> {
+    let mut c = String::from("BT /F1 11 Tf 14 TL 72 740 Td\n");
+    for k in 0..14 {
+        c += &format!("(Line {k}: the quick brown fox {k}{k} jumps over) Tj T*\n");
+    }
+    c += "ET";
+    let data = rf::ascii85_encode(&rf::lzw_encode(c.as_bytes(), false));
+    let objs = vec![
+        (1, catalog(2)),
+        (2, pages_node(&[3], 1, vec![])),
+        (3, page(2, 4, vec![])),
+        (
+            4,
+            stream(
+                vec![
+                    ("Filter", arr(vec![nm("ASCII85Decode"), nm("LZWDecode")])),
+                    ("DecodeParms", arr(vec![Obj::Null, dict(vec![("EarlyChange", int(0))])])),
+                    ("Length", rf_(5)),
+                ],
+                &data,
+            ),
+        ),
+        (5, int(data.len() as i64)),
+    ];
+    build_one(objs, XrefForm::Table, false, false, None)
+}
+
+fn seed_image_pred15() -> Vec<u8> {
+    let mut raw = Vec::new();
+    for y in 0..3u32 {
+        for x in 0..4u32 {
+            raw.extend_from_slice(&[(x * 60) as u8, (y * 100) as u8, ((x + y) * 30) as u8]);
+        }
+    }
+    let p = rf::PredParams { predictor: 15, colors: 3, bpc: 8, columns: 4 };
+    let enc = rf::flate_encode(&rf::png_predict_encode(&raw, &p, &|row| [1u8, 2, 4][row % 3]));
+    let img = stream(
+        vec![
+            ("Type", nm("XObject")),
+            ("Subtype", nm("Image")),
+            ("Width", int(4)),
+            ("Height", int(3)),
+            ("ColorSpace", nm("DeviceRGB")),
+            ("BitsPerComponent", int(8)),
+            ("Filter", nm("FlateDecode")),
+            ("DecodeParms", dict(vec![("Predictor", int(15)), ("Colors", int(3)), ("BitsPerComponent", int(8)), ("Columns", int(4))])),
+        ],
+        &enc,
+    );
+    let pg = dict(vec![
+        ("Type", nm("Page")),
+        ("Parent", rf_(2)),
+        ("MediaBox", media()),
+        ("Resources", dict(vec![("Font", dict(vec![("F1", helv())])), ("XObject", dict(vec![("Im1", rf_(5))]))])),
+        ("Contents", rf_(4)),
+    ]);
+    let objs = vec![(1, catalog(2)), (2, pages_node(&[3], 1, vec![])), (3, pg), (4, stream(vec![], b"q 40 0 0 30 100 600 cm /Im1 Do Q BT /F1 12 Tf 72 500 Td (img) Tj ET")), (5, img)];
+    build_one(objs, XrefForm::Table, false, false, None)
+}
+
+fn seed_nested_tree() -> Vec<u8> {
+    let leaf = |parent: u32, contents: u32, extra: Vec<(&str, Obj)>| {
+        let mut e = vec![("Type", nm("Page")), ("Parent", rf_(parent)), ("Contents", rf_(contents))];
+        e.extend(extra);
+        dict(e)
+    };
+    let objs = vec![
+        (1, catalog(2)),
+        (2, pages_node(&[3, 8], 3, vec![("MediaBox", media()), ("Resources", resources())])),
+        (3, pages_node(&[4, 6], 2, vec![("Parent", rf_(2)), ("Rotate", int(90))])),
+        (4, leaf(3, 5, vec![])),
+        (5, stream(vec![], b"BT /F1 12 Tf 72 720 Td (leaf one) Tj ET")),
+        (6, leaf(3, 7, vec![("Rotate", int(180)), ("CropBox", arr(vec![int(10), int(10), Obj::Real(300.5), int(400)]))])),
+        (7, stream(vec![], b"BT /F1 12 Tf 72 720 Td (leaf two) Tj ET")),
+        (8, leaf(2, 9, vec![("UserUnit", Obj::Real(1.5))])),
+        (9, stream(vec![], b"BT /F1 12 Tf 72 720 Td (leaf three) Tj ET")),
+    ];
+    build_one(objs, XrefForm::Table, false, false, None)
+}
+
+/// Replace the unique occurrence of `placeholder` by `raw` (same length).
+fn raw_patch(bytes: &mut Vec<u8>, placeholder: &[u8], raw: &[u8]) {
+    assert_eq!(placeholder.len(), raw.len(), "raw_patch length");
+    let p = find_sub(bytes, placeholder, 0).expect("placeholder present");
+    bytes[p..p + raw.len()].copy_from_slice(raw);
+}
+fn ph_str(fill: u8, raw: &[u8]) -> (Obj, Vec<u8>) {
+    // raw includes its delimiters; the placeholder is a literal string of the same length
+    let body = vec![fill; raw.len() - 2];
+    let mut text = vec![b'('];
+    text.extend_from_slice(&body);
+    text.push(b')');
+    (Obj::Str(body), text)
+}
+
+fn seed_strings_names() -> Vec<u8> {
+    let title: &[u8] = b"(\\101\\102C \\(nested (parens)\\) \\n\\r\\t\\b\\f \\\\ \\7\\53x \\400)";
+    let author: &[u8] = b"<48656c6C6F20 7>";
+    let subject: &[u8] = b"(line\\\ncontinued \\q)";
+    let (t_obj, t_ph) = ph_str(b'X', title);
+    let (a_obj, a_ph) = ph_str(b'Y', author);
+    let (s_obj, s_ph) = ph_str(b'Z', subject);
+    let content: &[u8] = b"BT /F1 12 Tf 72 700 Td (\\101\\102\\7\\53x) Tj <4142 43> Tj [(a\\)) -120 <44> 30.5 (\\\\)] TJ (q) ' 1 2 (r) \" ET";
+    let objs = vec![
+        (1, catalog(2)),
+        (2, pages_node(&[3], 1, vec![])),
+        (3, page(2, 4, vec![])),
+        (4, stream(vec![], content)),
+        (5, dict(vec![("Title", t_obj), ("Author", a_obj), ("Subject", s_obj)])),
+        (6, dict(vec![("A B", nm("C/D")), ("E#", int(1)), ("\u{1}x", arr(vec![nm("a(b"), nm("")]))])),
+    ];
+    let mut b = build_one(objs, XrefForm::Table, false, false, Some(5));
+    raw_patch(&mut b, &t_ph, title);
+    raw_patch(&mut b, &a_ph, author);
+    raw_patch(&mut b, &s_ph, subject);
+    b
+}
+
+const TOUNICODE: &[u8] = b"/CIDInit /ProcSet findresource begin\n12 dict begin\nbegincmap\n/CIDSystemInfo << /Registry (Adobe) /Ordering (UCS) /Supplement 0 >> def\n/CMapName /Adobe-Identity-UCS def\n/CMapType 2 def\n1 begincodespacerange\n<0000> <FFFF>\nendcodespacerange\n2 beginbfchar\n<0001> <0041>\n<0005> <00660069>\nendbfchar\n2 beginbfrange\n<0002> <0003> <0042>\n<0004> <0004> [<0044>]\nendbfrange\nendcmap\nCMapName currentdict /CMap defineresource pop\nend\nend";
+
+fn seed_type0() -> Vec<u8> {
+    let font = dict(vec![("Type", nm("Font")), ("Subtype", nm("Type0")), ("BaseFont", nm("ABCDEF+Test")), ("Encoding", nm("Identity-H")), ("DescendantFonts", arr(vec![rf_(6)])), ("ToUnicode", rf_(7))]);
+    let cid = dict(vec![
+        ("Type", nm("Font")),
+        ("Subtype", nm("CIDFontType2")),
+        ("BaseFont", nm("ABCDEF+Test")),
+        ("CIDSystemInfo", dict(vec![("Registry", Obj::str(b"Adobe")), ("Ordering", Obj::str(b"Identity")), ("Supplement", int(0))])),
+        ("DW", int(1000)),
+        ("W", arr(vec![int(1), arr(vec![int(500), int(600)]), int(3), int(5), int(700)])),
+        ("FontDescriptor", rf_(8)),
+    ]);
+    let fd = dict(vec![
+        ("Type", nm("FontDescriptor")),
+        ("FontName", nm("ABCDEF+Test")),
+        ("Flags", int(4)),
+        ("FontBBox", arr(vec![int(-100), int(-200), int(1000), int(900)])),
+        ("ItalicAngle", int(0)),
+        ("Ascent", int(800)),
+        ("Descent", int(-200)),
+        ("CapHeight", int(700)),
+        ("StemV", int(80)),
+    ]);
+    let pg = dict(vec![("Type", nm("Page")), ("Parent", rf_(2)), ("MediaBox", media()), ("Resources", dict(vec![("Font", dict(vec![("F1", rf_(5))]))])), ("Contents", rf_(4))]);
+    let objs = vec![
+        (1, catalog(2)),
+        (2, pages_node(&[3], 1, vec![])),
+        (3, pg),
+        (4, stream(vec![], b"BT /F1 12 Tf 72 700 Td <00010002> Tj [<0003> -200 <00040005>] TJ ET")),
+        (5, font),
+        (6, cid),
+        (7, stream(vec![], TOUNICODE)),
+        (8, fd),
+    ];
+    build_one(objs, XrefForm::Table, false, false, None)
+}
+
+/// Hybrid-reference file (ISO 32000-1 7.5.8.4): classic table + /XRefStm; object 7 lives in
+/// object stream 8 and is listed only in the (uncompressed) xref stream 9.
+fn seed_hybrid() -> Vec<u8> {
+    let objs: Vec<(u32, Obj)> = vec![
+        (1, catalog(2)),
+        (2, pages_node(&[3], 1, vec![])),
+        (3, page(2, 4, vec![])),
+        (4, stream(vec![], CONTENT_1)),
+        (5, int(5)),
+        (6, int(6)),
+    ];
+    let member = refpdf::syntax::to_bytes(&dict(vec![("Title", Obj::str(b"hybrid")), ("Producer", Obj::str(b"refpdf"))]));
+    let mut osd = b"7 0 ".to_vec();
+    let first = osd.len();
+    osd.extend_from_slice(&member);
+    osd.push(b'\n');
+    let objstm = stream(vec![("Type", nm("ObjStm")), ("N", int(1)), ("First", int(first as i64))], &osd);
+    let mut out: Vec<u8> = b"%PDF-1.5\n%\xE2\xE3\xCF\xD3\n".to_vec();
+    let mut offs: BTreeMap<u32, usize> = BTreeMap::new();
+    let put = |n: u32, o: &Obj, out: &mut Vec<u8>, offs: &mut BTreeMap<u32, usize>| {
+        offs.insert(n, out.len());
+        out.extend_from_slice(format!("{n} 0 obj\n").as_bytes());
+        write_obj(o, out);
+        out.extend_from_slice(b"\nendobj\n");
+    };
+    for (n, o) in &objs {
+        put(*n, o, &mut out, &mut offs);
+    }
+    put(8, &objstm, &mut out, &mut offs);
+    // xref stream: one entry, object 7 = type 2 in stream 8 at index 0; W [1 2 1]
+    let xs = Obj::Stream(Box::new(refpdf::syntax::StreamObj {
+        dict: {
+            let mut d = refpdf::syntax::Dict::new();
+            d.set("Type", nm("XRef"));
+            d.set("Size", int(10));
+            d.set("W", arr(vec![int(1), int(2), int(1)]));
+            d.set("Index", arr(vec![int(7), int(1)]));
+            d.set("Root", rf_(1));
+            d.set("Info", rf_(7));
+            d
+        },
+        data: vec![2, 0, 8, 0],
+    }));
+    put(9, &xs, &mut out, &mut offs);
+    let xref_at = out.len();
+    out.extend_from_slice(b"xref\n0 7\n");
+    out.extend_from_slice(b"0000000000 65535 f \n");
+    for n in 1..=6u32 {
+        out.extend_from_slice(format!("{:010} 00000 n \n", offs[&n]).as_bytes());
+    }
+    out.extend_from_slice(b"8 2\n");
+    for n in 8..=9u32 {
+        out.extend_from_slice(format!("{:010} 00000 n \n", offs[&n]).as_bytes());
+    }
+    out.extend_from_slice(format!("trailer\n<< /Size 10 /Root 1 0 R /Info 7 0 R /XRefStm {} >>\nstartxref\n{}\n%%EOF\n", offs[&9], xref_at).as_bytes());
+    out
+}
+
+fn seed_rc4_fixture() -> Option<Vec<u8>> {
+    std::fs::read(vx::repo_root().join("oxidize-pdf-core/tests/fixtures/interop_qpdf_rc4-40_empty.pdf")).ok()
+}
+
+/// A document written by the library's own writer (xref stream, Flate-compressed content).
+/// Dates are overwritten with a constant so that the bytes do not depend on the clock.
+fn seed_lib_writer() -> Option<Vec<u8>> {
+    let r = std::panic::catch_unwind(|| -> Option<Vec<u8>> {
+        use oxidize_pdf::{Document, Font, Page};
+        let mut doc = Document::new();
+        doc.set_title("lib");
+        let mut p = Page::a4();
+        p.text().set_font(Font::Helvetica, 12.0).at(72.0, 720.0).write("Written by the library").ok()?;
+        p.graphics().rect(50.0, 50.0, 100.0, 40.0).fill();
+        doc.add_page(p);
+        doc.enable_xref_streams(true);
+        let mut b = doc.to_bytes().ok()?;
+        let mut i = 0;
+        while let Some(p) = find_sub(&b, b"(D:", i) {
+            let mut k = p + 3;
+            let mut n = 0;
+            while k < b.len() && b[k].is_ascii_digit() && n < 14 {
+                b[k] = b"20240101000000"[n];
+                k += 1;
+                n += 1;
+            }
+            i = k;
+        }
+        Some(b)
+    });
+    r.ok().flatten()
+}
+
+const ORIGINS: [&str; 5] = ["refpdf", "refpdf+raw", "hand-assembled", "fixture interop_qpdf_rc4-40_empty.pdf (library writer + qpdf)", "oxidize-pdf Document::to_bytes"];
+
+/// Seeds are built once by the supervisor and handed to the workers as a file, so that a
+/// respawned worker only has to re-scan them.
+fn write_seed_cache(path: &std::path::Path, seeds: &[Seed]) {
+    let mut out = Vec::new();
+    for s in seeds {
+        out.extend_from_slice(&(s.name.len() as u32).to_le_bytes());
+        out.extend_from_slice(s.name.as_bytes());
+        out.extend_from_slice(&s.expect_pages.to_le_bytes());
+        out.push(ORIGINS.iter().position(|o| *o == s.origin).unwrap_or(0) as u8);
+        out.extend_from_slice(&(s.bytes.len() as u32).to_le_bytes());
+        out.extend_from_slice(&s.bytes);
+    }
+    let _ = std::fs::write(path, out);
+}
+
+fn read_seed_cache(path: &std::path::Path) -> Option<Vec<Seed>> {
+    let d = std::fs::read(path).ok()?;
+    let mut i = 0;
+    let mut v = Vec::new();
+    let u32_at = |i: usize| -> Option<usize> { Some(u32::from_le_bytes(d.get(i..i + 4)?.try_into().ok()?) as usize) };
+    while i < d.len() {
+        let nl = u32_at(i)?;
+        i += 4;
+        let name = String::from_utf8(d.get(i..i + nl)?.to_vec()).ok()?;
+        i += nl;
+        let pages = u32_at(i)? as u32;
+        i += 4;
+        let origin = ORIGINS.get(*d.get(i)? as usize).copied()?;
+        i += 1;
+        let bl = u32_at(i)?;
+        i += 4;
+        let bytes = d.get(i..i + bl)?.to_vec();
+        i += bl;
+        v.push(analyse(&name, bytes, pages, origin));
+    }
+    if v.is_empty() {
+        None
+    } else {
+        Some(v)
+    }
+}
+
+fn all_seeds() -> (Vec<Seed>, Vec<String>) {
+    if let Ok(p) = std::env::var("C01_SEED_CACHE") {
+        if let Some(v) = read_seed_cache(std::path::Path::new(&p)) {
+            return (v, Vec::new());
+        }
+    }
+    let mut notes = Vec::new();
+    let timing = std::env::var("C01_TIMING").is_ok();
+    let t0 = Instant::now();
+    let tick = |what: &str| {
+        if timing {
+            eprintln!("  seeds: {what} at {:?}", t0.elapsed());
+        }
+    };
+    let mut v = vec![
+        analyse("classic", seed_classic(), 2, "refpdf"),
+        analyse("xrefstm-objstm-pred12", seed_xrefstm_objstm(), 2, "refpdf"),
+        analyse("two-revisions-prev", seed_two_rev(), 1, "refpdf"),
+        analyse("a85-lzw-earlychange0", seed_a85_lzw(), 1, "refpdf"),
+        analyse("image-flate-pred15", seed_image_pred15(), 1, "refpdf"),
+        analyse("nested-tree-rotate", seed_nested_tree(), 3, "refpdf"),
+        analyse("strings-names-escapes", seed_strings_names(), 1, "refpdf+raw"),
+        analyse("type0-tounicode", seed_type0(), 1, "refpdf"),
+        analyse("hybrid-xrefstm", seed_hybrid(), 1, "hand-assembled"),
+    ];
+    tick("refpdf seeds");
+    match seed_rc4_fixture() {
+        Some(b) => v.push(analyse("rc4-40-empty-user-password", b, 1, "fixture interop_qpdf_rc4-40_empty.pdf (library writer + qpdf)")),
+        None => notes.push("RC4 seed skipped: fixture interop_qpdf_rc4-40_empty.pdf not readable".to_string()),
+    }
+    tick("rc4");
+    let lw = seed_lib_writer();
+    tick("lib writer built");
+    match lw {
+        Some(b) => v.push(analyse("library-writer-xrefstream", b, 1, "oxidize-pdf Document::to_bytes")),
+        None => notes.push("library-writer seed skipped: Document::to_bytes failed".to_string()),
+    }
+    tick("all");
+    (v, notes)
+}
+
+// =====================================================================================
+// the case space
+// =====================================================================================
+
+pub const PRESETS: [&str; 6] = ["strict", "default", "reader_new", "tolerant", "lenient", "skip_errors"];
+const NP: u64 = PRESETS.len() as u64;
+
+fn preset_options(p: usize) -> ParseOptions {
+    match p {
+        0 => ParseOptions::strict(),
+        1 => ParseOptions::default(),
+        2 => {
+            // what PdfReader::new / PdfReader::open use
+            let mut o = ParseOptions::default();
+            o.lenient_streams = true;
+            o
+        }
+        3 => ParseOptions::tolerant(),
+        4 => ParseOptions::lenient(),
+        _ => ParseOptions::skip_errors(),
+    }
+}
+
+#[derive(Clone, Copy, PartialEq, Eq, Debug)]
+enum Fam {
+    NumSingle,
+    Payload,
+    ByteMut,
+    Trunc,
+    Escapes,
+    NameHex,
+    A85,
+    Tokens,
+    Nesting,
+    NumPairs,
+}
+const FAMS: [Fam; 10] = [Fam::NumSingle, Fam::Payload, Fam::ByteMut, Fam::Trunc, Fam::Escapes, Fam::NameHex, Fam::A85, Fam::Tokens, Fam::Nesting, Fam::NumPairs];
+
+impl Fam {
+    fn name(self) -> &'static str {
+        match self {
+            Fam::NumSingle => "numeric-slot-single",
+            Fam::Payload => "payload-slot-single",
+            Fam::ByteMut => "byte-mutation",
+            Fam::Trunc => "truncation",
+            Fam::Escapes => "micro-string-escapes",
+            Fam::NameHex => "micro-name-hex",
+            Fam::A85 => "micro-ascii85-groups",
+            Fam::Tokens => "micro-token-sequences",
+            Fam::Nesting => "nesting-depth",
+            Fam::NumPairs => "numeric-slot-pairs",
+        }
+    }
+    fn from_name(s: &str) -> Option<Fam> {
+        FAMS.iter().copied().find(|f| f.name() == s)
+    }
+    fn id(self) -> usize {
+        FAMS.iter().position(|f| *f == self).unwrap()
+    }
+}
+
+const STRUCT_BYTES: [u8; 16] = [0x00, 0x0a, 0x20, b'%', b'(', b')', b'<', b'>', b'[', b']', b'/', b'\\', b'0', b'9', b'-', 0xff];
+const QUICK_BYTES: [u8; 4] = [b' ', b'(', b'<', b'9'];
+
+#[derive(Clone, Copy, Debug, PartialEq, Eq)]
+enum ByteOp {
+    Delete,
+    Dup,
+    DeleteFix,
+    DupFix,
+    Replace(u8),
+}
+
+const BODY_TOKENS: [&str; 20] = ["<<", ">>", "[", "]", "(", ")", "<", ">", "/", "/A", "0", "-1", "1.5", "R", "obj", "endobj", "stream\n", "endstream", "null", "%"];
+const CONTENT_TOKENS: [&str; 20] = ["[", "]", "(", ")", "<", ">", "<<", ">>", "/F1", "0", "-1", "1.5", "BT", "ET", "Tj", "TJ", "Tf", "BI", "ID", "EI"];
+const A85_ALPHA: [u8; 5] = [b'!', b's', b't', b'u', b'z'];
+const A85_TERMS: [&str; 6] = ["~>", "~", "", ">", "~~>", " ~>"];
+const HEXC: &[u8] = b"0123456789abcdefABCDEFgG# /)>\x00";
+const NEST_DEPTHS: [usize; 15] = [1, 2, 8, 64, 100, 101, 255, 256, 999, 1000, 1001, 1024, 5000, 20000, 100000];
+const NEST_KINDS: [&str; 14] = [
+    "body-array",
+    "body-dict",
+    "body-string-parens",
+    "body-array-dict-mixed",
+    "content-array",
+    "content-q",
+    "content-BT",
+    "content-BDC-dict",
+    "pagetree-chain",
+    "length-ref-chain",
+    "form-xobject-chain",
+    "form-xobject-cycle",
+    "body-comment-run",
+    "content-comment-run",
+];
+
+struct Space {
+    thorough: bool,
+    seeds: Vec<Seed>,
+    notes: Vec<String>,
+    byte_ops: Vec<ByteOp>,
+    // numeric singles: flattened (seed, slot) with prefix sums over 2*nvalues
+    ns_items: Vec<(usize, usize)>,
+    ns_prefix: Vec<u64>,
+    // payload: flattened items
+    pl_items: Vec<PayloadItem>,
+    pl_prefix: Vec<u64>,
+    bm_prefix: Vec<u64>,
+    tr_prefix: Vec<u64>,
+    escapes: Vec<Vec<u8>>,
+    namehex: Vec<Vec<u8>>,
+    a85_groups: u64,
+    a85_prefixes: Vec<&'static str>,
+    tok_maxlen: usize,
+    nest: Vec<(usize, usize, bool)>,
+    pairs: Vec<(usize, usize, usize)>,
+    pair_vals: usize,
+}
+
+#[derive(Clone, Debug)]
+enum PayloadItem {
+    XrefField { seed: usize, xs: usize, row: usize, field: usize, values: Vec<u64> },
+    ObjStmTok { seed: usize, os: usize, tok: usize },
+}
+
+fn prefix(counts: impl Iterator<Item = u64>) -> Vec<u64> {
+    let mut v = vec![0u64];
+    for c in counts {
+        v.push(v.last().unwrap() + c);
+    }
+    v
+}
+fn locate(prefix: &[u64], idx: u64) -> (usize, u64) {
+    // largest i with prefix[i] <= idx
+    let i = match prefix.binary_search(&idx) {
+        Ok(mut i) => {
+            while i + 1 < prefix.len() && prefix[i + 1] == prefix[i] {
+                i += 1;
+            }
+            i
+        }
+        Err(i) => i - 1,
+    };
+    (i, idx - prefix[i])
+}
+
+impl Space {
+    fn new(thorough: bool) -> Space {
+        THOROUGH.store(thorough, Ordering::SeqCst);
+        let (seeds, notes) = all_seeds();
+        let mut byte_ops = vec![ByteOp::Delete, ByteOp::Dup];
+        if thorough {
+            byte_ops.push(ByteOp::DeleteFix);
+            byte_ops.push(ByteOp::DupFix);
+            byte_ops.extend(STRUCT_BYTES.iter().map(|b| ByteOp::Replace(*b)));
+        } else {
+            byte_ops.push(ByteOp::DeleteFix);
+            byte_ops.extend(QUICK_BYTES.iter().map(|b| ByteOp::Replace(*b)));
+        }
+        let mut ns_items = Vec::new();
+        for (si, s) in seeds.iter().enumerate() {
+            for k in 0..s.scan.slots.len() {
+                ns_items.push((si, k));
+            }
+        }
+        let ns_prefix = prefix(ns_items.iter().map(|(si, k)| 2 * seeds[*si].values[*k].len() as u64));
+        let mut pl_items = Vec::new();
+        for (si, s) in seeds.iter().enumerate() {
+            for (xi, xs) in s.xrefstms.iter().enumerate() {
+                for r in 0..xs.rows() {
+                    for f in 0..3 {
+                        if xs.w[f] > 0 {
+                            let old = xs.field(&xs.payload, r, f);
+                            let mut values = width_values(xs.w[f], s.bytes.len());
+                            values.retain(|v| *v != old);
+                            pl_items.push(PayloadItem::XrefField { seed: si, xs: xi, row: r, field: f, values });
+                        }
+                    }
+                }
+            }
+            for (oi, os) in s.objstms.iter().enumerate() {
+                for t in 0..os.toks.len() {
+                    pl_items.push(PayloadItem::ObjStmTok { seed: si, os: oi, tok: t });
+                }
+            }
+        }
+        let pl_prefix = prefix(pl_items.iter().map(|it| match it {
+            PayloadItem::XrefField { values, .. } => values.len() as u64,
+            PayloadItem::ObjStmTok { .. } => CAT.len() as u64,
+        }));
+        let bm_prefix = prefix(seeds.iter().map(|s| s.bytes.len() as u64 * byte_ops.len() as u64));
+        let tr_prefix = prefix(seeds.iter().map(|s| s.bytes.len() as u64));
+        // string escapes: \ddd (512), \dd (64), \d (8), \ + every byte (256)
+        let mut escapes: Vec<Vec<u8>> = Vec::new();
+        for v in 0..512u32 {
+            escapes.push(format!("\\{:03o}", v).into_bytes());
+        }
+        for v in 0..64u32 {
+            escapes.push(format!("\\{:02o}", v).into_bytes());
+        }
+        for v in 0..8u32 {
+            escapes.push(format!("\\{:o}", v).into_bytes());
+        }
+        for b in 0..=255u8 {
+            escapes.push(vec![b'\\', b]);
+        }
+        let mut namehex: Vec<Vec<u8>> = Vec::new();
+        for &a in HEXC {
+            for &b in HEXC {
+                namehex.push(vec![b'#', a, b, b'y']);
+            }
+        }
+        for &a in HEXC {
+            namehex.push(vec![b'#', a]);
+        }
+        namehex.push(vec![b'#']);
+        let a85_groups: u64 = (0..=5u32).map(|l| 5u64.pow(l)).sum();
+        let a85_prefixes = if thorough { vec!["", "87cUR"] } else { vec![""] };
+        let tok_maxlen = if thorough { 4 } else { 3 };
+        let mut nest = Vec::new();
+        for k in 0..NEST_KINDS.len() {
+            for &d in NEST_DEPTHS.iter() {
+                let chain = (8..=11).contains(&k);
+                if chain && d > 5000 {
+                    continue;
+                }
+                // content-stream operator kinds: 100000 levels is more than a megabyte of operators
+                // and lands near the 5 s deadline for size alone (the BDC property-list kind stays)
+                if ((4..=6).contains(&k) || k == 13) && d > 20000 {
+                    continue;
+                }
+                for closed in [true, false] {
+                    if (chain || k >= 12) && !closed {
+                        continue;
+                    }
+                    nest.push((k, d, closed));
+                }
+            }
+        }
+        let mut pairs = Vec::new();
+        if thorough {
+            for (si, s) in seeds.iter().enumerate() {
+                let n = s.scan.slots.len();
+                for i in 0..n {
+                    for j in i + 1..n {
+                        let (a, b) = (&s.scan.slots[i], &s.scan.slots[j]);
+                        if a.group == b.group && a.group != 0 && a.stream == b.stream {
+                            pairs.push((si, i, j));
+                        }
+                    }
+                }
+            }
+        }
+        Space {
+            thorough,
+            seeds,
+            notes,
+            byte_ops,
+            ns_items,
+            ns_prefix,
+            pl_items,
+            pl_prefix,
+            bm_prefix,
+            tr_prefix,
+            escapes,
+            namehex,
+            a85_groups,
+            a85_prefixes,
+            tok_maxlen,
+            nest,
+            pairs,
+            pair_vals: PAIR_CAT.len(),
+        }
+    }
+
+    fn tok_seqs(&self) -> u64 {
+        (0..=self.tok_maxlen as u32).map(|l| 20u64.pow(l)).sum()
+    }
+
+    /// number of inputs (before the preset factor)
+    fn inputs(&self, f: Fam) -> u64 {
+        match f {
+            Fam::NumSingle => *self.ns_prefix.last().unwrap(),
+            Fam::Payload => *self.pl_prefix.last().unwrap(),
+            Fam::ByteMut => *self.bm_prefix.last().unwrap(),
+            Fam::Trunc => *self.tr_prefix.last().unwrap(),
+            Fam::Escapes => self.escapes.len() as u64 * 2,
+            Fam::NameHex => self.namehex.len() as u64 * 3,
+            Fam::A85 => self.a85_groups * A85_TERMS.len() as u64 * self.a85_prefixes.len() as u64,
+            Fam::Tokens => self.tok_seqs() * 3,
+            Fam::Nesting => self.nest.len() as u64,
+            Fam::NumPairs => self.pairs.len() as u64 * (self.pair_vals * self.pair_vals) as u64,
+        }
+    }
+    fn cases(&self, f: Fam) -> u64 {
+        self.inputs(f) * NP
+    }
+
+    fn decode_seq(&self, mut idx: u64, base: u64, maxlen: usize) -> Vec<usize> {
+        for l in 0..=maxlen {
+            let n = base.pow(l as u32);
+            if idx < n {
+                let mut v = vec![0usize; l];
+                for k in (0..l).rev() {
+                    v[k] = (idx % base) as usize;
+                    idx /= base;
+                }
+                return v;
+            }
+            idx -= n;
+        }
+        Vec::new()
+    }
+
+    /// Build the bytes of one input and a description of it.
+    fn build(&self, f: Fam, input: u64, want_desc: bool) -> (Vec<u8>, Value) {
+        match f {
+            Fam::NumSingle => {
+                let (it, rem) = locate(&self.ns_prefix, input);
+                let (si, k) = self.ns_items[it];
+                let seed = &self.seeds[si];
+                let vals = &seed.values[k];
+                let fix = rem >= vals.len() as u64;
+                let val = &vals[(rem % vals.len() as u64) as usize];
+                let sl = &seed.scan.slots[k];
+                let e = Edit { a: sl.a, b: sl.b, new: val.clone() };
+                let bytes = if fix { with_fixups(seed, &[e], &[k]) } else { apply_edits(&seed.bytes, &[e]) };
+                let d = if want_desc {
+                    json!({"seed": seed.name, "slot": self.slot_label(si, k), "new": String::from_utf8_lossy(val), "offsets_repaired": fix})
+                } else {
+                    Value::Null
+                };
+                (bytes, d)
+            }
+            Fam::Payload => {
+                let (it, rem) = locate(&self.pl_prefix, input);
+                match &self.pl_items[it] {
+                    PayloadItem::XrefField { seed, xs, row, field, values } => {
+                        let s = &self.seeds[*seed];
+                        let x = &s.xrefstms[*xs];
+                        let mut p = x.payload.clone();
+                        let v = values[rem as usize];
+                        x.set_field(&mut p, *row, *field, v);
+                        let st = &s.scan.streams[x.stream];
+                        let e = Edit { a: st.a, b: st.b, new: x.encode(&p) };
+                        let bytes = with_fixups(s, &[e], &[]);
+                        let d = if want_desc {
+                            json!({"seed": s.name, "xref_stream_entry": row, "field": field, "width": x.w[*field], "old": x.field(&x.payload, *row, *field), "new": v})
+                        } else {
+                            Value::Null
+                        };
+                        (bytes, d)
+                    }
+                    PayloadItem::ObjStmTok { seed, os, tok } => {
+                        let s = &self.seeds[*seed];
+                        let o = &s.objstms[*os];
+                        let val = CAT[rem as usize].as_bytes();
+                        let (ta, tb) = o.toks[*tok];
+                        // rebuild header and body so that /First and the member offsets stay true
+                        let in_header = tb <= o.first;
+                        let (new_payload, new_first) = if in_header {
+                            let mut h = o.payload[..o.first].to_vec();
+                            h.splice(ta..tb, val.iter().copied());
+                            let nf = h.len();
+                            h.extend_from_slice(&o.payload[o.first..]);
+                            (h, nf)
+                        } else {
+                            let delta = val.len() as isize - (tb - ta) as isize;
+                            let mut header = Vec::new();
+                            for (nt, _ot, off) in &o.pairs {
+                                let num = &o.payload[o.toks[*nt].0..o.toks[*nt].1];
+                                let noff = if o.first + *off > ta { (*off as isize + delta).max(0) as usize } else { *off };
+                                header.extend_from_slice(num);
+                                header.push(b' ');
+                                header.extend_from_slice(noff.to_string().as_bytes());
+                                header.push(b' ');
+                            }
+                            let nf = header.len();
+                            let mut body = o.payload[o.first..].to_vec();
+                            body.splice(ta - o.first..tb - o.first, val.iter().copied());
+                            header.extend_from_slice(&body);
+                            (header, nf)
+                        };
+                        let st = &s.scan.streams[o.stream];
+                        let enc = if o.flate { rf::flate_encode(&new_payload) } else { new_payload };
+                        let mut edits = vec![Edit { a: st.a, b: st.b, new: enc }];
+                        let mut skip = vec![];
+                        if new_first != o.first {
+                            if let Some(fs) = o.first_slot {
+                                let sl = &s.scan.slots[fs];
+                                edits.push(Edit { a: sl.a, b: sl.b, new: new_first.to_string().into_bytes() });
+                                skip.push(fs);
+                            }
+                        }
+                        let bytes = with_fixups(s, &edits, &skip);
+                        let d = if want_desc {
+                            json!({"seed": s.name, "objstm_payload_token": tok, "in_header": in_header, "old": String::from_utf8_lossy(&o.payload[ta..tb]), "new": CAT[rem as usize]})
+                        } else {
+                            Value::Null
+                        };
+                        (bytes, d)
+                    }
+                }
+            }
+            Fam::ByteMut => {
+                let (si, rem) = locate(&self.bm_prefix, input);
+                let seed = &self.seeds[si];
+                let nops = self.byte_ops.len() as u64;
+                let pos = (rem / nops) as usize;
+                let op = self.byte_ops[(rem % nops) as usize];
+                let b = seed.bytes[pos];
+                let bytes = match op {
+                    ByteOp::Delete => apply_edits(&seed.bytes, &[Edit { a: pos, b: pos + 1, new: vec![] }]),
+                    ByteOp::Dup => apply_edits(&seed.bytes, &[Edit { a: pos, b: pos + 1, new: vec![b, b] }]),
+                    ByteOp::DeleteFix => with_fixups(seed, &[Edit { a: pos, b: pos + 1, new: vec![] }], &[]),
+                    ByteOp::DupFix => with_fixups(seed, &[Edit { a: pos, b: pos + 1, new: vec![b, b] }], &[]),
+                    ByteOp::Replace(x) => {
+                        let mut v = seed.bytes.clone();
+                        v[pos] = x;
+                        v
+                    }
+                };
+                let d = if want_desc {
+                    let lo = pos.saturating_sub(12);
+                    let hi = (pos + 12).min(seed.bytes.len());
+                    json!({"seed": seed.name, "pos": pos, "op": format!("{op:?}"), "context": vx::show_bytes(&seed.bytes[lo..hi], 40), "old_byte": b})
+                } else {
+                    Value::Null
+                };
+                (bytes, d)
+            }
+            Fam::Trunc => {
+                let (si, rem) = locate(&self.tr_prefix, input);
+                let seed = &self.seeds[si];
+                let bytes = seed.bytes[..rem as usize].to_vec();
+                (bytes, if want_desc { json!({"seed": seed.name, "truncated_to": rem, "of": seed.bytes.len()}) } else { Value::Null })
+            }
+            Fam::Escapes => {
+                let n = self.escapes.len() as u64;
+                let place = input / n;
+                let esc = &self.escapes[(input % n) as usize];
+                let mut raw = vec![b'('];
+                raw.extend_from_slice(esc);
+                raw.extend_from_slice(b"x)");
+                let content = [b"BT /F1 12 Tf 72 700 Td ".as_slice(), raw.as_slice(), b" Tj ET".as_slice()].concat();
+                let bytes = micro_doc(if place == 0 { Micro::InfoString(&raw) } else { Micro::Content(&content) });
+                (bytes, if want_desc { json!({"escape": vx::show_bytes(esc, 8), "placement": if place == 0 { "Info /Title string" } else { "content-stream Tj operand" }}) } else { Value::Null })
+            }
+            Fam::NameHex => {
+                let n = self.namehex.len() as u64;
+                let place = input / n;
+                let tail = &self.namehex[(input % n) as usize];
+                let mut name = b"/K".to_vec();
+                name.extend_from_slice(tail);
+                let bytes = match place {
+                    0 => micro_doc(Micro::InfoKey(&name)),
+                    1 => micro_doc(Micro::FontKey(&name)),
+                    _ => micro_doc(Micro::Content(&[name.as_slice(), b" gs BT /F1 12 Tf (a) Tj ET"].concat())),
+                };
+                (bytes, if want_desc { json!({"name": vx::show_bytes(&name, 12), "placement": (["Info dictionary key", "font resource key + Tf operand", "content-stream gs operand"][place as usize])}) } else { Value::Null })
+            }
+            Fam::A85 => {
+                let nt = A85_TERMS.len() as u64;
+                let g = self.a85_groups;
+                let pfx = self.a85_prefixes[(input / (g * nt)) as usize];
+                let rem = input % (g * nt);
+                let term = A85_TERMS[(rem % nt) as usize];
+                let seq = self.decode_seq(rem / nt, 5, 5);
+                let mut data = pfx.as_bytes().to_vec();
+                data.extend(seq.iter().map(|i| A85_ALPHA[*i]));
+                data.extend_from_slice(term.as_bytes());
+                let bytes = micro_doc(Micro::ContentFiltered("ASCII85Decode", &data));
+                (bytes, if want_desc { json!({"ascii85_data": String::from_utf8_lossy(&data), "placement": "content stream with /Filter /ASCII85Decode"}) } else { Value::Null })
+            }
+            Fam::Tokens => {
+                let n = self.tok_seqs();
+                let place = input / n;
+                let seq = self.decode_seq(input % n, 20, self.tok_maxlen);
+                let alpha = if place == 1 { &CONTENT_TOKENS } else { &BODY_TOKENS };
+                let text: Vec<u8> = seq.iter().map(|i| alpha[*i]).collect::<Vec<_>>().join(" ").into_bytes();
+                let bytes = match place {
+                    0 => micro_doc(Micro::ResourcesBody(&text)),
+                    1 => micro_doc(Micro::Content(&[b"q BT /F1 12 Tf 1 0 0 1 72 700 Tm ".as_slice(), &text, b" ET Q"].concat())),
+                    _ => micro_doc(Micro::XrefDict(&text)),
+                };
+                (bytes, if want_desc { json!({"tokens": String::from_utf8_lossy(&text), "placement": (["body of the page's /Resources object", "content stream", "value of an extra key in the xref-stream dictionary"][place as usize])}) } else { Value::Null })
+            }
+            Fam::Nesting => {
+                let (k, d, closed) = self.nest[input as usize];
+                let bytes = nesting_doc(k, d, closed);
+                (bytes, if want_desc { json!({"kind": NEST_KINDS[k], "depth": d, "closed": closed}) } else { Value::Null })
+            }
+            Fam::NumPairs => {
+                let pv = self.pair_vals as u64;
+                let (si, i, j) = self.pairs[(input / (pv * pv)) as usize];
+                let rem = input % (pv * pv);
+                let (vi, vj) = (PAIR_CAT[(rem / pv) as usize], PAIR_CAT[(rem % pv) as usize]);
+                let seed = &self.seeds[si];
+                let (a, b) = (&seed.scan.slots[i], &seed.scan.slots[j]);
+                let edits = [Edit { a: a.a, b: a.b, new: vi.as_bytes().to_vec() }, Edit { a: b.a, b: b.b, new: vj.as_bytes().to_vec() }];
+                let bytes = with_fixups(seed, &edits, &[i, j]);
+                (bytes, if want_desc { json!({"seed": seed.name, "slot1": self.slot_label(si, i), "new1": vi, "slot2": self.slot_label(si, j), "new2": vj, "offsets_repaired": true}) } else { Value::Null })
+            }
+        }
+    }
+
+    fn slot_label(&self, si: usize, k: usize) -> String {
+        let s = &self.seeds[si];
+        let sl = &s.scan.slots[k];
+        let lo = sl.a.saturating_sub(16);
+        format!(
+            "#{k} {:?} key=/{} in {}{} at byte {} old={} (…{}…)",
+            sl.kind,
+            sl.key,
+            s.scan.group_label[sl.group as usize],
+            if sl.stream.is_some() { " stream data" } else { "" },
+            sl.a,
+            tok_str(&s.bytes, sl),
+            vx::show_bytes(&s.bytes[lo..(sl.b + 4).min(s.bytes.len())], 40)
+        )
+    }
+
+    fn describe(&self, f: Fam, idx: u64) -> Value {
+        let (_, mut d) = self.build(f, idx / NP, true);
+        d["preset"] = json!(PRESETS[(idx % NP) as usize]);
+        d["family"] = json!(f.name());
+        d["case_index"] = json!(idx);
+        d
+    }
+}
+
+// ------------------------------------------------------------------ micro-grammar carrier documents
+
+enum Micro<'a> {
+    /// raw literal/hex string (with delimiters) as Info /Title
+    InfoString(&'a [u8]),
+    /// raw name (with '/') as a key of the Info dictionary
+    InfoKey(&'a [u8]),
+    /// raw name as key of the /Font resource dictionary and as Tf operand
+    FontKey(&'a [u8]),
+    /// raw content stream
+    Content(&'a [u8]),
+    ContentFiltered(&'a str, &'a [u8]),
+    /// raw text as the whole body of the page's /Resources object (object 5)
+    ResourcesBody(&'a [u8]),
+    /// raw text as value of an extra key of the xref-stream dictionary
+    XrefDict(&'a [u8]),
+}
+
+fn filler(fill: u8, n: usize) -> Vec<u8> {
+    vec![fill; n]
+}
+
+/// 1 catalog, 2 pages, 3 page (/Resources 5 0 R, /Contents 4 0 R), 4 content, 5 resources,
+/// 6 font, 7 info. Raw text is injected by same-length placeholder substitution.
+fn micro_doc(m: Micro) -> Vec<u8> {
+    let mut content: Vec<u8> = b"BT /F1 12 Tf 72 700 Td (micro) Tj ET".to_vec();
+    let mut content_filter: Option<&str> = None;
+    let mut resources: Obj = dict(vec![("Font", dict(vec![("F1", rf_(6))]))]);
+    let mut info: Obj = dict(vec![("Title", Obj::str(b"micro"))]);
+    let mut patch: Option<(Vec<u8>, Vec<u8>)> = None;
+    let mut form = XrefForm::Table;
+    let mut trailer_extra: Vec<(String, Obj)> = Vec::new();
+    match m {
+        Micro::InfoString(raw) => {
+            let body = filler(b'X', raw.len() - 2);
+            let mut ph = vec![b'('];
+            ph.extend_from_slice(&body);
+            ph.push(b')');
+            info = dict(vec![("Title", Obj::Str(body))]);
+            patch = Some((ph, raw.to_vec()));
+        }
+        Micro::InfoKey(raw) => {
+            let key = String::from_utf8(filler(b'X', raw.len() - 1)).unwrap();
+            info = dict(vec![("Title", Obj::str(b"t")), (key.as_str(), Obj::str(b"v"))]);
+            let mut ph = vec![b'/'];
+            ph.extend_from_slice(key.as_bytes());
+            patch = Some((ph, raw.to_vec()));
+        }
+        Micro::FontKey(raw) => {
+            let key = String::from_utf8(filler(b'X', raw.len() - 1)).unwrap();
+            resources = dict(vec![("Font", dict(vec![("F1", rf_(6)), (key.as_str(), rf_(6))]))]);
+            let mut ph = vec![b'/'];
+            ph.extend_from_slice(key.as_bytes());
+            patch = Some((ph, raw.to_vec()));
+            content = [raw, b" 12 Tf 72 700 Td (a) Tj ET".as_slice()].concat();
+            content.splice(0..0, b"BT ".iter().copied());
+        }
+        Micro::Content(raw) => content = raw.to_vec(),
+        Micro::ContentFiltered(f, raw) => {
+            content = raw.to_vec();
+            content_filter = Some(f);
+        }
+        Micro::ResourcesBody(raw) => {
+            // " " + raw has the length of "/" + X*len(raw)
+            resources = Obj::Name(filler(b'X', raw.len()));
+            let mut ph = vec![b'/'];
+            ph.extend_from_slice(&filler(b'X', raw.len()));
+            let mut r = vec![b' '];
+            r.extend_from_slice(raw);
+            patch = Some((ph, r));
+        }
+        Micro::XrefDict(raw) => {
+            form = XrefForm::Stream;
+            trailer_extra.push(("K".into(), Obj::Name(filler(b'X', raw.len()))));
+            let mut ph = b"/K /".to_vec();
+            ph.extend_from_slice(&filler(b'X', raw.len()));
+            let mut r = b"/K  ".to_vec();
+            r.extend_from_slice(raw);
+            patch = Some((ph, r));
+        }
+    }
+    let cs = match content_filter {
+        Some(f) => stream(vec![("Filter", nm(f))], &content),
+        None => stream(vec![], &content),
+    };
+    let pg = dict(vec![("Type", nm("Page")), ("Parent", rf_(2)), ("MediaBox", media()), ("Resources", rf_(5)), ("Contents", rf_(4))]);
+    let mut r = Revision::new(form);
+    r.trailer_extra = trailer_extra;
+    for (n, o) in [(1, catalog(2)), (2, pages_node(&[3], 1, vec![])), (3, pg), (4, cs), (5, resources), (6, helv()), (7, info)] {
+        r.add(n, o);
+    }
+    let mut fb = FileBuilder::new(1);
+    fb.info = Some((7, 0));
+    fb.revisions.push(r);
+    let mut b = fb.build().bytes;
+    if let Some((ph, raw)) = patch {
+        // the placeholder may also occur in the content stream (FontKey): patch the first
+        // occurrence that is followed by a non-'X' byte
+        let mut from = 0;
+        while let Some(p) = find_sub(&b, &ph, from) {
+            let after = b.get(p + ph.len()).copied().unwrap_or(b' ');
+            if after != b'X' {
+                b[p..p + raw.len()].copy_from_slice(&raw);
+                break;
+            }
+            from = p + 1;
+        }
+    }
+    b
+}
+
+fn rep(s: &str, n: usize) -> Vec<u8> {
+    s.as_bytes().repeat(n)
+}
+
+fn nesting_doc(kind: usize, d: usize, closed: bool) -> Vec<u8> {
+    let open_close = |o: &str, c: &str| -> Vec<u8> {
+        let mut v = rep(o, d);
+        if closed {
+            v.extend(rep(c, d));
+        }
+        v
+    };
+    match kind {
+        0 => micro_doc(Micro::ResourcesBody(&open_close("[", "]"))),
+        1 => micro_doc(Micro::ResourcesBody(&open_close("<</A ", ">>"))),
+        2 => micro_doc(Micro::ResourcesBody(&open_close("(", ")"))),
+        3 => micro_doc(Micro::ResourcesBody(&open_close("[<</A ", ">>]"))),
+        4 => micro_doc(Micro::Content(&[b"BT /F1 12 Tf ".to_vec(), open_close("[", "]"), b" TJ ET".to_vec()].concat())),
+        5 => micro_doc(Micro::Content(&[open_close("q ", "Q "), b"BT /F1 12 Tf (x) Tj ET".to_vec()].concat())),
+        6 => micro_doc(Micro::Content(&[open_close("BT /F1 12 Tf ", "ET "), b"(x) Tj".to_vec()].concat())),
+        7 => micro_doc(Micro::Content(&[b"/P ".to_vec(), open_close("<</A ", ">>"), b" BDC BT /F1 12 Tf (x) Tj ET EMC".to_vec()].concat())),
+        12 => micro_doc(Micro::ResourcesBody(&[rep("%c\n", d), b"<< /Font << /F1 6 0 R >> >>".to_vec()].concat())),
+        13 => micro_doc(Micro::Content(&[rep("%c\n", d), b"BT /F1 12 Tf (x) Tj ET".to_vec()].concat())),
+        8 => {
+            // catalog 1 -> pages 2 -> pages 3 -> ... -> pages d+1 -> page d+2 (content d+3)
+            let mut objs: Vec<(u32, Obj)> = vec![(1, catalog(2))];
+            for k in 0..d as u32 {
+                let n = 2 + k;
+                let mut extra = vec![];
+                if k > 0 {
+                    extra.push(("Parent", rf_(n - 1)));
+                } else {
+                    extra.push(("MediaBox", media()));
+                    extra.push(("Resources", resources()));
+                }
+                objs.push((n, pages_node(&[n + 1], 1, extra)));
+            }
+            let pn = 2 + d as u32;
+            objs.push((pn, dict(vec![("Type", nm("Page")), ("Parent", rf_(pn - 1)), ("Contents", rf_(pn + 1))])));
+            objs.push((pn + 1, stream(vec![], b"BT /F1 12 Tf 72 700 Td (deep) Tj ET")));
+            build_one(objs, XrefForm::Table, false, false, None)
+        }
+        9 => {
+            // /Length 5 0 R; 5 = "6 0 R"; ...; last = integer
+            let data = b"BT /F1 12 Tf 72 700 Td (chain) Tj ET";
+            let mut objs: Vec<(u32, Obj)> = vec![(1, catalog(2)), (2, pages_node(&[3], 1, vec![])), (3, page(2, 4, vec![])), (4, stream(vec![("Length", rf_(5))], data))];
+            for k in 0..d as u32 {
+                objs.push((5 + k, rf_(6 + k)));
+            }
+            objs.push((5 + d as u32, int(data.len() as i64)));
+            build_one(objs, XrefForm::Table, false, false, None)
+        }
+        _ => {
+            // form XObjects: Fm(k) draws Fm(k+1); kind 11 closes the chain into a cycle
+            let cycle = kind == 11;
+            let mut objs: Vec<(u32, Obj)> = vec![(1, catalog(2)), (2, pages_node(&[3], 1, vec![]))];
+            let res = |target: u32| dict(vec![("Font", dict(vec![("F1", helv())])), ("XObject", dict(vec![("Fm", rf_(target))]))]);
+            objs.push((3, dict(vec![("Type", nm("Page")), ("Parent", rf_(2)), ("MediaBox", media()), ("Resources", res(5)), ("Contents", rf_(4))])));
+            objs.push((4, stream(vec![], b"BT /F1 12 Tf 72 700 Td (top) Tj ET /Fm Do")));
+            for k in 0..d as u32 {
+                let n = 5 + k;
+                let last = k + 1 == d as u32;
+                let next = if last { 5 } else { n + 1 };
+                let mut e = vec![("Type", nm("XObject")), ("Subtype", nm("Form")), ("BBox", media())];
+                let body: &[u8] = if last && !cycle {
+                    e.push(("Resources", dict(vec![("Font", dict(vec![("F1", helv())]))])));
+                    b"BT /F1 12 Tf 72 600 Td (bottom) Tj ET"
+                } else {
+                    e.push(("Resources", res(next)));
+                    b"BT /F1 12 Tf 72 650 Td (f) Tj ET /Fm Do"
+                };
+                objs.push((n, stream(e, body)));
+            }
+            build_one(objs, XrefForm::Table, false, false, None)
+        }
+    }
+}
+
+// =====================================================================================
+// the driver: one case through the whole reading path
+// =====================================================================================
+
+static PHASE: AtomicUsize = AtomicUsize::new(0);
+/// 16-byte shared-memory cell (a file in the scratch directory mapped MAP_SHARED): byte 0 =
+/// driver phase, bytes 8..16 = index of the case being run. The supervisor reads it after a
+/// worker died, so the in-flight case and phase are known without any per-case pipe traffic.
+static STATE_PTR: AtomicUsize = AtomicUsize::new(0);
+const PHASES: [&str; 9] = ["build", "open", "page_count", "get_page", "content_streams", "content_parse", "objects_and_decode", "extract_text", "extract_text_layout"];
+
+fn phase(p: usize) {
+    PHASE.store(p, Ordering::Relaxed);
+    let sp = STATE_PTR.load(Ordering::Relaxed);
+    if sp != 0 {
+        unsafe { std::ptr::write_volatile(sp as *mut u8, p as u8) };
+    }
+}
+fn state_case(idx: u64) {
+    let sp = STATE_PTR.load(Ordering::Relaxed);
+    if sp != 0 {
+        unsafe { std::ptr::write_volatile((sp + 8) as *mut u64, idx) };
+    }
+}
+fn map_state_file(path: &str) {
+    unsafe {
+        let c = std::ffi::CString::new(path).unwrap();
+        let fd = libc::open(c.as_ptr(), libc::O_RDWR | libc::O_CREAT, 0o644);
+        if fd < 0 {
+            return;
+        }
+        libc::ftruncate(fd, 16);
+        let m = libc::mmap(std::ptr::null_mut(), 16, libc::PROT_READ | libc::PROT_WRITE, libc::MAP_SHARED, fd, 0);
+        libc::close(fd);
+        if m != libc::MAP_FAILED {
+            STATE_PTR.store(m as usize, Ordering::SeqCst);
+        }
+    }
+}
+fn read_state_file(path: &std::path::Path) -> (String, u64) {
+    let b = std::fs::read(path).unwrap_or_default();
+    if b.len() < 16 {
+        return ("unknown".into(), u64::MAX);
+    }
+    let mut x = [0u8; 8];
+    x.copy_from_slice(&b[8..16]);
+    (PHASES.get(b[0] as usize).copied().unwrap_or("unknown").to_string(), u64::from_le_bytes(x))
+}
+
+fn err_class<E: std::fmt::Debug>(e: &E) -> String {
+    let s = format!("{e:?}");
+    s.chars().take_while(|c| c.is_ascii_alphanumeric() || *c == '_').take(24).collect()
+}
+
+const MAX_PAGES_WALKED: u32 = 12;
+
+/// Returns (outcome signature, non-trivial?).
+fn drive(bytes: &[u8], preset: usize, max_obj: u32) -> (String, bool) {
+    let opts = preset_options(preset);
+    let mut sig = String::with_capacity(96);
+    phase(1);
+    let reader = match PdfReader::new_with_options(std::io::Cursor::new(bytes.to_vec()), opts.clone()) {
+        Ok(r) => r,
+        Err(e) => return (format!("open:E{}", err_class(&e)), false),
+    };
+    sig.push_str("open:ok");
+    let doc = PdfDocument::new(reader);
+    phase(2);
+    let n = match doc.page_count() {
+        Ok(n) => {
+            sig.push_str(&format!("|pc:{}", n.min(99)));
+            n
+        }
+        Err(e) => {
+            sig.push_str(&format!("|pc:E{}", err_class(&e)));
+            0
+        }
+    };
+    let (mut pg_ok, mut pg_err, mut cs_ok, mut cs_err, mut cp_ok, mut cp_err, mut res) = (0, 0, 0, 0, 0, 0, 0);
+    for i in 0..n.min(MAX_PAGES_WALKED) {
+        phase(3);
+        match doc.get_page(i) {
+            Ok(pg) => {
+                pg_ok += 1;
+                if let Ok(Some(_)) = doc.get_page_resources(&pg) {
+                    res += 1;
+                }
+                let _ = (pg.width(), pg.height());
+                phase(4);
+                match doc.get_page_content_streams(&pg) {
+                    Ok(streams) => {
+                        cs_ok += 1;
+                        phase(5);
+                        for s in &streams {
+                            match ContentParser::parse(s) {
+                                Ok(_) => cp_ok += 1,
+                                Err(_) => cp_err += 1,
+                            }
+                        }
+                    }
+                    Err(_) => cs_err += 1,
+                }
+            }
+            Err(_) => pg_err += 1,
+        }
+    }
+    sig.push_str(&format!("|pg:{pg_ok}/{pg_err}|res:{res}|cs:{cs_ok}/{cs_err}|cp:{cp_ok}/{cp_err}"));
+    phase(6);
+    let (mut o_ok, mut o_null, mut o_err, mut d_ok, mut d_err) = (0, 0, 0, 0, 0);
+    for num in 0..=max_obj {
+        match doc.get_object(num, 0) {
+            Ok(PdfObject::Null) => o_null += 1,
+            Ok(PdfObject::Stream(s)) => {
+                o_ok += 1;
+                match doc.decode_stream(&s) {
+                    Ok(_) => d_ok += 1,
+                    Err(_) => d_err += 1,
+                }
+                match s.decode(&opts) {
+                    Ok(_) => d_ok += 1,
+                    Err(_) => d_err += 1,
+                }
+            }
+            Ok(_) => o_ok += 1,
+            Err(_) => o_err += 1,
+        }
+    }
+    sig.push_str(&format!("|obj:{o_ok}/{o_null}/{o_err}|dec:{d_ok}/{d_err}"));
+    phase(7);
+    match doc.extract_text() {
+        Ok(v) => sig.push_str(&format!("|tx:ok{}", v.iter().filter(|t| !t.text.is_empty()).count())),
+        Err(e) => sig.push_str(&format!("|tx:E{}", err_class(&e))),
+    }
+    phase(8);
+    let lo = ExtractionOptions { preserve_layout: true, sort_by_position: true, detect_columns: true, ..Default::default() };
+    match doc.extract_text_with_options(lo) {
+        Ok(_) => sig.push_str("|txl:ok"),
+        Err(e) => sig.push_str(&format!("|txl:E{}", err_class(&e))),
+    }
+    (sig, o_ok > 0)
+}
+
+impl Space {
+    fn max_obj(&self, f: Fam, input: u64) -> u32 {
+        let seed_of = |prefix: &[u64]| locate(prefix, input).0;
+        match f {
+            Fam::NumSingle => {
+                let (it, _) = locate(&self.ns_prefix, input);
+                self.seeds[self.ns_items[it].0].max_obj + 3
+            }
+            Fam::Payload => {
+                let (it, _) = locate(&self.pl_prefix, input);
+                let si = match &self.pl_items[it] {
+                    PayloadItem::XrefField { seed, .. } => *seed,
+                    PayloadItem::ObjStmTok { seed, .. } => *seed,
+                };
+                self.seeds[si].max_obj + 3
+            }
+            Fam::ByteMut => self.seeds[seed_of(&self.bm_prefix)].max_obj + 3,
+            Fam::Trunc => self.seeds[seed_of(&self.tr_prefix)].max_obj + 3,
+            Fam::NumPairs => {
+                let pv = (self.pair_vals * self.pair_vals) as u64;
+                self.seeds[self.pairs[(input / pv) as usize].0].max_obj + 3
+            }
+            Fam::Nesting => (self.nest[input as usize].1 as u32 + 8).min(64),
+            _ => 10,
+        }
+    }
+}
+
+// =====================================================================================
+// worker process
+// =====================================================================================
+
+fn thread_cpu_us() -> u64 {
+    let mut ts = libc::timespec { tv_sec: 0, tv_nsec: 0 };
+    unsafe {
+        libc::clock_gettime(libc::CLOCK_THREAD_CPUTIME_ID, &mut ts);
+    }
+    ts.tv_sec as u64 * 1_000_000 + ts.tv_nsec as u64 / 1000
+}
+
+fn clean(s: &str) -> String {
+    s.chars().map(|c| if c == '\t' || c == '\n' || c == '\r' { ' ' } else { c }).collect()
+}
+
+/// One case, in this process. Returns the record line (without newline).
+fn lenient_is_tolerant() -> bool {
+    static SAME: std::sync::OnceLock<bool> = std::sync::OnceLock::new();
+    *SAME.get_or_init(|| format!("{:?}", ParseOptions::lenient()) == format!("{:?}", ParseOptions::tolerant()))
+}
+
+fn run_case_here(space: &Space, f: Fam, idx: u64) -> String {
+    let input = idx / NP;
+    let preset = (idx % NP) as usize;
+    if preset == 4 && lenient_is_tolerant() {
+        // ParseOptions::lenient() is field-for-field ParseOptions::tolerant() (checked just
+        // now): the tolerant case next to this one is the same execution
+        return format!("R {idx} 2 0 0 0 0 0 0");
+    }
+    state_case(idx);
+    phase(0);
+    let (bytes, _) = space.build(f, input, false);
+    let ih = vx::hbytes(&bytes);
+    let max_obj = space.max_obj(f, input);
+    let base = alloc_track::CUR.load(Ordering::Relaxed);
+    alloc_track::PEAK.store(base, Ordering::Relaxed);
+    let t0 = thread_cpu_us();
+    let r = guard_case(|| drive(&bytes, preset, max_obj));
+    let cpu = thread_cpu_us().saturating_sub(t0);
+    let peak = (alloc_track::PEAK.load(Ordering::Relaxed) - base).max(0) as u64;
+    match r {
+        Ok((sig, nontriv)) => format!("R {idx} 0 {} {:x} {:x} {} {} {}", nontriv as u8, ih, vx::h64(&sig), peak / 1024, cpu, if sig.starts_with("open:ok") { 1 } else { 0 }),
+        Err((key, detail)) => format!("R {idx} 1 0 {:x} {:x} {} {} 0\t{}\t{}\t{}", ih, vx::h64(&key), peak / 1024, cpu, clean(&key), clean(&detail), PHASES[PHASE.load(Ordering::Relaxed)]),
+    }
+}
+
+static SIG_FD: AtomicI32 = AtomicI32::new(-1);
+static STACK_LO: AtomicUsize = AtomicUsize::new(0);
+
+extern "C" fn on_fault(sig: libc::c_int, info: *mut libc::siginfo_t, _ctx: *mut libc::c_void) {
+    let fd = SIG_FD.load(Ordering::Relaxed);
+    let addr = unsafe { (*info).si_addr() as usize };
+    let lo = STACK_LO.load(Ordering::Relaxed);
+    let kind: &[u8] = if sig == libc::SIGUSR1 {
+        b"U "
+    } else if lo != 0 && addr + (1 << 20) >= lo && addr < lo + (64 << 10) {
+        b"F stack-overflow "
+    } else {
+        b"F bad-access "
+    };
+    let frame = if sig == libc::SIGUSR1 { library_stack() } else { recursing_library_frame() };
+    let line = [kind, frame.as_bytes(), b"\n"].concat();
+    unsafe {
+        libc::write(fd, line.as_ptr() as *const libc::c_void, line.len());
+        if sig != libc::SIGUSR1 {
+            // die of the original fault
+            libc::signal(sig, libc::SIG_DFL);
+        }
+    }
+}
+
+/// Single-case mode: report the innermost library function on SIGSEGV/SIGBUS (stack overflow
+/// or bad access) and on SIGUSR1 (sent by the supervisor before it kills a hung worker).
+fn install_fault_handlers(fd: i32) {
+    SIG_FD.store(fd, Ordering::SeqCst);
+    // The worker forks one child per batch, so everything a crashing child would otherwise
+    // have to set up again is warmed here once: the symbol table, the C unwinder behind
+    // backtrace(3), and Rust's own unwinder (one caught panic).
+    let _ = SYMTAB.get_or_init(load_symtab);
+    let _ = first_library_frame();
+    let _ = std::panic::catch_unwind(|| panic!("warm-up"));
+    unsafe {
+        let mut attr: libc::pthread_attr_t = std::mem::zeroed();
+        if libc::pthread_getattr_np(libc::pthread_self(), &mut attr) == 0 {
+            let mut sa: *mut libc::c_void = std::ptr::null_mut();
+            let mut sz: libc::size_t = 0;
+            if libc::pthread_attr_getstack(&attr, &mut sa, &mut sz) == 0 {
+                STACK_LO.store(sa as usize, Ordering::SeqCst);
+            }
+            libc::pthread_attr_destroy(&mut attr);
+        }
+        let size = 1usize << 19;
+        let mem = libc::mmap(std::ptr::null_mut(), size, libc::PROT_READ | libc::PROT_WRITE, libc::MAP_PRIVATE | libc::MAP_ANONYMOUS, -1, 0);
+        let ss = libc::stack_t { ss_sp: mem, ss_flags: 0, ss_size: size };
+        libc::sigaltstack(&ss, std::ptr::null_mut());
+        let mut act: libc::sigaction = std::mem::zeroed();
+        act.sa_sigaction = on_fault as usize;
+        act.sa_flags = libc::SA_SIGINFO | libc::SA_ONSTACK;
+        libc::sigemptyset(&mut act.sa_mask);
+        libc::sigaction(libc::SIGSEGV, &act, std::ptr::null_mut());
+        libc::sigaction(libc::SIGBUS, &act, std::ptr::null_mut());
+        libc::sigaction(libc::SIGUSR1, &act, std::ptr::null_mut());
+        // warm the unwinder outside the handler
+        let mut buf = [std::ptr::null_mut::<libc::c_void>(); 4];
+        libc::backtrace(buf.as_mut_ptr(), 4);
+    }
+}
+
+pub fn worker_main(args: &[String]) -> i32 {
+    let thorough = args.first().map(|s| s == "thorough").unwrap_or(false);
+    // the protocol gets its own descriptor; fd 1 is pointed at /dev/null so that nothing the
+    // library might print can corrupt it
+    let fd = unsafe { libc::dup(1) };
+    unsafe {
+        let devnull = libc::open(b"/dev/null\0".as_ptr() as *const libc::c_char, libc::O_WRONLY);
+        if devnull >= 0 {
+            libc::dup2(devnull, 1);
+            libc::close(devnull);
+        }
+    }
+    if let Some(p) = args.get(1) {
+        map_state_file(p);
+    }
+    install_worker_panic_hook();
+    let t_start = Instant::now();
+    let space = Space::new(thorough);
+    let t_space = t_start.elapsed();
+    install_fault_handlers(fd);
+    if std::env::var("C01_TIMING").is_ok() {
+        eprintln!("worker start: space {:?}, handlers {:?}", t_space, t_start.elapsed() - t_space);
+    }
+    alloc_track::FD.store(fd, Ordering::SeqCst);
+    alloc_track::LIMIT.store(alloc_track::CUR.load(Ordering::Relaxed).max(0) + MEM_LIMIT, Ordering::SeqCst);
+    alloc_track::TRACK.store(true, Ordering::SeqCst);
+    let emit = |s: &[u8]| unsafe {
+        let mut off = 0;
+        while off < s.len() {
+            let n = libc::write(fd, s[off..].as_ptr() as *const libc::c_void, s.len() - off);
+            if n <= 0 {
+                std::process::exit(3);
+            }
+            off += n as usize;
+        }
+    };
+    emit(b"H ready\n");
+    let stdin = std::io::stdin();
+    let mut line = String::new();
+    loop {
+        line.clear();
+        match stdin.lock().read_line(&mut line) {
+            Ok(0) | Err(_) => return 0,
+            Ok(_) => {}
+        }
+        let parts: Vec<&str> = line.split_whitespace().collect();
+        if parts.len() < 3 {
+            continue;
+        }
+        let Some(f) = parts[1].parse::<usize>().ok().and_then(|i| FAMS.get(i).copied()) else { continue };
+        let start: u64 = parts[2].parse().unwrap_or(0);
+        let count: u64 = parts.get(3).and_then(|s| s.parse().ok()).unwrap_or(1);
+        let stride: u64 = parts.get(4).and_then(|s| s.parse().ok()).unwrap_or(1).max(1);
+        // Each batch runs in a forked child of this process (which has the case space built
+        // and stays alive): a child that aborts, overflows its stack or is killed by the
+        // supervisor costs a fork, not a fresh start. Records are written case by case, so the
+        // supervisor always knows which case was in flight.
+        unsafe {
+            libc::ftruncate(2, 0);
+            libc::lseek(2, 0, libc::SEEK_SET);
+        }
+        let pid = unsafe { libc::fork() };
+        if pid == 0 {
+            let me = unsafe { libc::getpid() };
+            emit(format!("C {me}\n").as_bytes());
+            for j in 0..count {
+                let idx = start + j * stride;
+                let mut rec = run_case_here(&space, f, idx);
+                rec.push('\n');
+                emit(rec.as_bytes());
+            }
+            emit(b"E\n");
+            unsafe { libc::_exit(0) };
+        } else if pid < 0 {
+            emit(b"X fork-failed\n");
+        } else {
+            let mut status: libc::c_int = 0;
+            loop {
+                let r = unsafe { libc::waitpid(pid, &mut status, 0) };
+                if r == pid || r < 0 {
+                    break;
+                }
+            }
+            if libc::WIFSIGNALED(status) {
+                emit(format!("X sig {}\n", libc::WTERMSIG(status)).as_bytes());
+            } else if libc::WIFEXITED(status) && libc::WEXITSTATUS(status) != 0 {
+                emit(format!("X exit {}\n", libc::WEXITSTATUS(status)).as_bytes());
+            }
+        }
+    }
+}
+
+// =====================================================================================
+// supervisor
+// =====================================================================================
+
+#[derive(Clone, Debug, Default)]
+struct Rec {
+    idx: u64,
+    status: u8,
+    nontriv: bool,
+    ih: u64,
+    oh: u64,
+    peak_kib: u64,
+    cpu_us: u64,
+    opened: bool,
+    key: String,
+    detail: String,
+    phase: String,
+}
+
+fn parse_rec(line: &str) -> Option<Rec> {
+    let mut tabs = line.split('\t');
+    let head = tabs.next()?;
+    let p: Vec<&str> = head.split(' ').collect();
+    if p.len() < 9 || p[0] != "R" {
+        return None;
+    }
+    Some(Rec {
+        idx: p[1].parse().ok()?,
+        status: p[2].parse().ok()?,
+        nontriv: p[3] == "1",
+        ih: u64::from_str_radix(p[4], 16).ok()?,
+        oh: u64::from_str_radix(p[5], 16).ok()?,
+        peak_kib: p[6].parse().ok()?,
+        cpu_us: p[7].parse().ok()?,
+        opened: p[8] == "1",
+        key: tabs.next().unwrap_or("").to_string(),
+        detail: tabs.next().unwrap_or("").to_string(),
+        phase: tabs.next().unwrap_or("").to_string(),
+    })
+}
+
+struct Worker {
+    child: std::process::Child,
+    stdin: std::process::ChildStdin,
+    rx: mpsc::Receiver<String>,
+    errpath: std::path::PathBuf,
+    statepath: std::path::PathBuf,
+}
+
+impl Worker {
+    fn spawn(thorough: bool, scratch: &std::path::Path, tag: &str) -> Result<Worker, String> {
+        let errpath = scratch.join(format!("{tag}.err"));
+        let errf = std::fs::File::create(&errpath).map_err(|e| format!("{}: {e}", errpath.display()))?;
+        let statepath = scratch.join(format!("{tag}.st"));
+        let _ = std::fs::write(&statepath, [0u8; 16]);
+        let mut c = std::process::Command::new(vx::proc::self_exe());
+        c.args(["--worker", "C01", if thorough { "thorough" } else { "quick" }, statepath.to_str().unwrap_or("")])
+            .stdin(std::process::Stdio::piped())
+            .stdout(std::process::Stdio::piped())
+            .stderr(errf)
+            .env("VX_RLIMIT_AS", (6u64 << 30).to_string())
+            .env("C01_SEED_CACHE", scratch.join("seeds.bin"))
+            .env("RUST_BACKTRACE", "0");
+        let mut child = c.spawn().map_err(|e| format!("spawn worker: {e}"))?;
+        let stdin = child.stdin.take().unwrap();
+        let stdout = child.stdout.take().unwrap();
+        let (tx, rx) = mpsc::channel::<String>();
+        std::thread::spawn(move || {
+            let mut r = BufReader::with_capacity(1 << 16, stdout);
+            let mut line = String::new();
+            loop {
+                line.clear();
+                match r.read_line(&mut line) {
+                    Ok(0) | Err(_) => break,
+                    Ok(_) => {
+                        let l = line.trim_end_matches('\n').to_string();
+                        if l.is_empty() {
+                            continue;
+                        }
+                        if tx.send(l).is_err() {
+                            break;
+                        }
+                    }
+                }
+            }
+        });
+        let w = Worker { child, stdin, rx, errpath, statepath };
+        match w.rx.recv_timeout(Duration::from_secs(120)) {
+            Ok(l) if l.starts_with("H ") => Ok(w),
+            other => {
+                let mut w = w;
+                let _ = w.child.kill();
+                let _ = w.child.wait();
+                Err(format!("worker did not start: {other:?}"))
+            }
+        }
+    }
+    fn kill(mut self) -> std::process::ExitStatus {
+        let _ = self.child.kill();
+        self.child.wait().expect("wait")
+    }
+    fn cpu_seconds(&self, pid: Option<i32>) -> f64 {
+        let pid = pid.unwrap_or(self.child.id() as i32);
+        let Ok(s) = std::fs::read_to_string(format!("/proc/{pid}/stat")) else { return 0.0 };
+        let Some(p) = s.rfind(')') else { return 0.0 };
+        let f: Vec<&str> = s[p + 1..].split_whitespace().collect();
+        // after ")" the fields start at index 0 = state (field 3); utime = field 14, stime = 15
+        let ut: f64 = f.get(11).and_then(|x| x.parse().ok()).unwrap_or(0.0);
+        let stt: f64 = f.get(12).and_then(|x| x.parse().ok()).unwrap_or(0.0);
+        let hz = unsafe { libc::sysconf(libc::_SC_CLK_TCK) } as f64;
+        (ut + stt) / hz.max(1.0)
+    }
+}
+
+fn signal_name(sig: i32) -> String {
+    match sig {
+        4 => "SIGILL".into(),
+        6 => "SIGABRT".into(),
+        7 => "SIGBUS".into(),
+        8 => "SIGFPE".into(),
+        9 => "SIGKILL".into(),
+        11 => "SIGSEGV".into(),
+        n => format!("signal{n}"),
+    }
+}
+
+#[derive(Debug)]
+enum Single {
+    Done(Rec),
+    Crash { how: String, phase: String, oom: Option<(u64, String)>, fault: Option<String>, stderr_class: String, stderr_tail: String },
+    Hang { phase: String, cpu_s: f64, wall_s: f64, frame: String, samples: Vec<String> },
+    Machinery(String),
+}
+
+fn stderr_class(path: &std::path::Path) -> (String, String) {
+    let b = std::fs::read(path).unwrap_or_default();
+    let s = String::from_utf8_lossy(&b).to_string();
+    let class = if s.contains("overflowed its stack") {
+        "stack-overflow"
+    } else if s.contains("memory allocation of") {
+        "alloc-failed"
+    } else if s.contains("panic in a function that cannot unwind") || s.contains("panicked while panicking") {
+        "double-panic"
+    } else {
+        "other"
+    };
+    let tail: String = s.chars().rev().take(300).collect::<Vec<_>>().into_iter().rev().collect();
+    (class.into(), vx::one_line(&tail, 300))
+}
+
+/// What the wait loop saw while one case was in flight.
+#[derive(Default)]
+struct Flight {
+    since: Option<Instant>,
+    cpu_base: Option<f64>,
+    marks: Vec<(f64, f64)>,
+    oom: Option<(u64, String)>,
+    fault: Option<String>,
+    /// pid of the forked child that runs the current batch
+    child_pid: Option<i32>,
+}
+
+enum Got {
+    Record(Rec),
+    BatchEnd,
+    Failed(Single),
+}
+
+/// Wait for the next record (or the end-of-batch marker) of worker `w`. A worker that dies,
+/// or that spends more than the deadline on the in-flight case, is consumed and reported
+/// as `Failed`.
+fn next_event(wopt: &mut Option<Worker>, fl: &mut Flight) -> Got {
+    let since = *fl.since.get_or_insert_with(Instant::now);
+    loop {
+        let w = wopt.as_mut().expect("worker");
+        match w.rx.recv_timeout(Duration::from_millis(500)) {
+            Ok(l) => {
+                if l == "E" {
+                    *fl = Flight::default();
+                    return Got::BatchEnd;
+                } else if l.starts_with("R ") {
+                    if let Some(r) = parse_rec(&l) {
+                        let cp = fl.child_pid;
+                        *fl = Flight::default();
+                        fl.child_pid = cp;
+                        return Got::Record(r);
+                    }
+                } else if let Some(m) = l.strip_prefix("M ") {
+                    let mut it = m.split(' ');
+                    let sz = it.next().and_then(|x| x.parse().ok()).unwrap_or(0);
+                    fl.oom = Some((sz, it.next().unwrap_or("unknown").to_string()));
+                } else if let Some(m) = l.strip_prefix("F ") {
+                    fl.fault = Some(m.replace(' ', ":"));
+                } else if let Some(m) = l.strip_prefix("C ") {
+                    fl.child_pid = m.trim().parse().ok();
+                } else if let Some(m) = l.strip_prefix("X ") {
+                    // the batch child died; the worker itself is alive and ready for the next batch
+                    let how = match m.split(' ').collect::<Vec<_>>().as_slice() {
+                        ["sig", n] => signal_name(n.parse().unwrap_or(0)),
+                        ["exit", n] => format!("exit{n}"),
+                        _ => m.to_string(),
+                    };
+                    let (class, tail) = stderr_class(&w.errpath);
+                    let (phase, _) = read_state_file(&w.statepath);
+                    let f = std::mem::take(fl);
+                    return Got::Failed(Single::Crash { how, phase, oom: f.oom, fault: f.fault, stderr_class: class, stderr_tail: tail });
+                }
+            }
+            Err(mpsc::RecvTimeoutError::Timeout) => {
+                let wall = since.elapsed().as_secs_f64();
+                if wall < 1.0 {
+                    continue;
+                }
+                if fl.child_pid.is_none() && wall < 120.0 {
+                    // the batch child has not announced itself yet (slow fork): nothing to measure
+                    continue;
+                }
+                let cpu_now = w.cpu_seconds(fl.child_pid);
+                let base = *fl.cpu_base.get_or_insert(cpu_now);
+                let cpu = cpu_now - base;
+                fl.marks.push((wall, cpu));
+                // blocked = practically no CPU used during the last 10 s of wall time
+                let blocked = wall >= DEADLINE_WALL_S && fl.marks.iter().find(|m| m.0 >= wall - 10.0).map(|m| cpu - m.1 < 0.2).unwrap_or(false);
+                if cpu >= DEADLINE_CPU_S || blocked || wall >= 300.0 {
+                    // three stack samples 100 ms apart: the deepest frame common to all of them
+                    // is the function whose loop does not end
+                    let mut stacks: Vec<Vec<String>> = Vec::new();
+                    for _ in 0..3 {
+                        unsafe {
+                            libc::kill(fl.child_pid.unwrap_or(w.child.id() as i32), libc::SIGUSR1);
+                        }
+                        let t1 = Instant::now();
+                        while t1.elapsed() < Duration::from_secs(10) {
+                            match w.rx.recv_timeout(Duration::from_millis(100)) {
+                                Ok(l) => {
+                                    if let Some(f) = l.strip_prefix("U ") {
+                                        stacks.push(f.split('>').map(|x| x.to_string()).collect());
+                                        break;
+                                    }
+                                }
+                                Err(mpsc::RecvTimeoutError::Disconnected) => break,
+                                Err(_) => {}
+                            }
+                        }
+                        std::thread::sleep(Duration::from_millis(100));
+                    }
+                    // name the hang by the two outermost library frames (always on the stack, so
+                    // the name does not depend on where in the loop a sample lands)
+                    let mut frame = String::from("unknown");
+                    if let Some(first) = stacks.first() {
+                        let mut k = first.len();
+                        for st in &stacks[1..] {
+                            k = k.min(st.iter().zip(first.iter()).take_while(|(a, b)| a == b).count());
+                        }
+                        if k > 0 {
+                            frame = first[..k.min(2)].join(">");
+                        }
+                    }
+                    let samples: Vec<String> = stacks.iter().map(|s| s.join(">")).collect();
+                    let (phase, _) = read_state_file(&w.statepath);
+                    match fl.child_pid {
+                        Some(cp) => {
+                            // kill the batch child only and swallow the worker's "X" notice
+                            unsafe {
+                                libc::kill(cp, libc::SIGKILL);
+                            }
+                            let t2 = Instant::now();
+                            let mut alive = true;
+                            while t2.elapsed() < Duration::from_secs(30) {
+                                match w.rx.recv_timeout(Duration::from_millis(200)) {
+                                    Ok(l) if l.starts_with("X ") => break,
+                                    Ok(_) => {}
+                                    Err(mpsc::RecvTimeoutError::Disconnected) => {
+                                        alive = false;
+                                        break;
+                                    }
+                                    Err(_) => {}
+                                }
+                            }
+                            if !alive {
+                                if let Some(w) = wopt.take() {
+                                    w.kill();
+                                }
+                            }
+                        }
+                        None => {
+                            if let Some(w) = wopt.take() {
+                                w.kill();
+                            }
+                        }
+                    }
+                    *fl = Flight::default();
+                    return Got::Failed(Single::Hang { phase, cpu_s: cpu, wall_s: wall, frame, samples });
+                }
+            }
+            Err(mpsc::RecvTimeoutError::Disconnected) => {
+                let mut w = wopt.take().unwrap();
+                let st = w.child.wait().expect("wait");
+                use std::os::unix::process::ExitStatusExt;
+                let how = match st.signal() {
+                    Some(s) => signal_name(s),
+                    None => format!("exit{}", st.code().unwrap_or(-1)),
+                };
+                let (class, tail) = stderr_class(&w.errpath);
+                let (phase, _) = read_state_file(&w.statepath);
+                let f = std::mem::take(fl);
+                return Got::Failed(Single::Crash { how, phase, oom: f.oom, fault: f.fault, stderr_class: class, stderr_tail: tail });
+            }
+        }
+    }
+}
+
+/// Run one case alone in a fresh worker (used by --replay).
+fn run_single(thorough: bool, scratch: &std::path::Path, tag: &str, f: Fam, idx: u64) -> Single {
+    let mut w = match Worker::spawn(thorough, scratch, tag) {
+        Ok(w) => w,
+        Err(e) => return Single::Machinery(e),
+    };
+    if writeln!(w.stdin, "B {} {} 1", f.id(), idx).and_then(|_| w.stdin.flush()).is_err() {
+        return Single::Machinery("cannot write to single worker".into());
+    }
+    let mut wopt = Some(w);
+    let mut fl = Flight::default();
+    match next_event(&mut wopt, &mut fl) {
+        Got::Record(r) => {
+            if let Some(mut w) = wopt.take() {
+                drop(w.stdin);
+                let _ = w.child.wait();
+            }
+            Single::Done(r)
+        }
+        Got::BatchEnd => Single::Machinery("batch ended without a record".into()),
+        Got::Failed(s) => s,
+    }
+}
+
+#[derive(Default)]
+struct VAcc {
+    first_idx: u64,
+    count: u64,
+    detail: String,
+}
+
+#[derive(Default)]
+struct FamAcc {
+    execs: u64,
+    opened: u64,
+    nontriv_cases: u64,
+    inputs: HashSet<u64>,
+    outcomes: HashSet<u64>,
+    nontriv: HashSet<u64>,
+    viol: BTreeMap<String, VAcc>,
+    max_peak_kib: u64,
+    max_peak_idx: u64,
+    max_cpu_us: u64,
+    max_cpu_idx: u64,
+    cpu_total_us: u64,
+    panics: u64,
+    crashes: u64,
+    hangs: u64,
+    respawns: u64,
+    identical_preset: u64,
+}
+
+impl FamAcc {
+    fn violation(&mut self, key: String, idx: u64, detail: String) {
+        let e = self.viol.entry(key).or_insert_with(|| VAcc { first_idx: idx, count: 0, detail: detail.clone() });
+        if idx < e.first_idx {
+            e.first_idx = idx;
+            e.detail = detail;
+        }
+        e.count += 1;
+    }
+    fn record(&mut self, r: &Rec) {
+        if r.status == 2 {
+            self.identical_preset += 1;
+            return;
+        }
+        self.execs += 1;
+        self.inputs.insert(r.ih);
+        self.outcomes.insert(r.oh);
+        if r.opened {
+            self.opened += 1;
+        }
+        if r.nontriv {
+            self.nontriv_cases += 1;
+            self.nontriv.insert(vx::hmix(r.ih, r.idx % NP));
+        }
+        if r.peak_kib > self.max_peak_kib {
+            self.max_peak_kib = r.peak_kib;
+            self.max_peak_idx = r.idx;
+        }
+        if r.cpu_us > self.max_cpu_us {
+            self.max_cpu_us = r.cpu_us;
+            self.max_cpu_idx = r.idx;
+        }
+        self.cpu_total_us += r.cpu_us;
+        if r.status == 1 {
+            self.panics += 1;
+            self.violation(r.key.clone(), r.idx, format!("{} (driver phase {})", r.detail, r.phase));
+        }
+        if r.cpu_us as f64 > DEADLINE_CPU_S * 1e6 {
+            self.violation("C01/deadline:case-completed-after-more-than-5s-cpu".into(), r.idx, format!("case took {:.1} s of CPU", r.cpu_us as f64 / 1e6));
+        }
+    }
+    fn record_single(&mut self, idx: u64, s: Single) -> Option<String> {
+        match s {
+            Single::Done(r) => {
+                self.record(&r);
+                None
+            }
+            Single::Crash { how, phase, oom, fault, stderr_class, stderr_tail } => {
+                self.execs += 1;
+                self.crashes += 1;
+                self.outcomes.insert(vx::h64(&("crash", &how, &phase)));
+                match (oom, fault) {
+                    (Some((size, site)), _) => self.violation(format!("C01/alloc-over-1GiB:{site}"), idx, format!("allocation of {size} bytes would exceed 1 GiB of live heap (driver phase {phase}); the process aborts ({how})")),
+                    (None, Some(f)) => self.violation(format!("C01/{f}"), idx, format!("worker process died with {how} in driver phase {phase}; innermost library function {f}")),
+                    (None, None) => self.violation(format!("C01/crash:{how}:{stderr_class}:in-{phase}"), idx, format!("worker process died with {how} in driver phase {phase}; stderr: {stderr_tail}")),
+                }
+                None
+            }
+            Single::Hang { phase, cpu_s, wall_s, frame, samples } => {
+                self.execs += 1;
+                self.hangs += 1;
+                self.outcomes.insert(vx::h64(&("hang", &phase)));
+                let key = if frame == "unknown" { format!("C01/hang:in-{phase}") } else { format!("C01/hang:{frame}") };
+                self.violation(key, idx, format!("no result after {cpu_s:.1} s CPU / {wall_s:.1} s wall in driver phase {phase}; killed; library call stacks sampled before the kill: {samples:?}"));
+                None
+            }
+            Single::Machinery(e) => Some(e),
+        }
+    }
+    fn merge(&mut self, o: FamAcc) {
+        self.execs += o.execs;
+        self.opened += o.opened;
+        self.nontriv_cases += o.nontriv_cases;
+        self.inputs.extend(o.inputs);
+        self.outcomes.extend(o.outcomes);
+        self.nontriv.extend(o.nontriv);
+        for (k, v) in o.viol {
+            match self.viol.get_mut(&k) {
+                Some(e) => {
+                    e.count += v.count;
+                    if v.first_idx < e.first_idx {
+                        e.first_idx = v.first_idx;
+                        e.detail = v.detail;
+                    }
+                }
+                None => {
+                    self.viol.insert(k, v);
+                }
+            }
+        }
+        if o.max_peak_kib > self.max_peak_kib {
+            self.max_peak_kib = o.max_peak_kib;
+            self.max_peak_idx = o.max_peak_idx;
+        }
+        if o.max_cpu_us > self.max_cpu_us {
+            self.max_cpu_us = o.max_cpu_us;
+            self.max_cpu_idx = o.max_cpu_idx;
+        }
+        self.cpu_total_us += o.cpu_total_us;
+        self.panics += o.panics;
+        self.crashes += o.crashes;
+        self.hangs += o.hangs;
+        self.respawns += o.respawns;
+        self.identical_preset += o.identical_preset;
+    }
+}
+
+struct Sweep {
+    thorough: bool,
+    scratch: std::path::PathBuf,
+    totals: Vec<u64>,
+    cursor: Mutex<(usize, u64)>,
+    issued: Vec<AtomicU64>,
+    deadline: Instant,
+    capped: AtomicBool,
+    machinery: Mutex<Vec<String>>,
+    done: AtomicU64,
+}
+
+impl Sweep {
+    /// Chunks are strided: chunk k of a family with S chunks holds the cases k, k+S, k+2S, …
+    /// so that neighbouring cases (which tend to share a slow or crashing behaviour) are
+    /// spread over all workers. Returns (family, first index, count, stride).
+    fn next_chunk(&self) -> Option<(Fam, u64, u64, u64)> {
+        let mut c = self.cursor.lock().unwrap();
+        if Instant::now() >= self.deadline {
+            if c.0 < FAMS.len() {
+                self.capped.store(true, Ordering::SeqCst);
+            }
+            return None;
+        }
+        loop {
+            if c.0 >= FAMS.len() {
+                return None;
+            }
+            let total = self.totals[c.0];
+            let nchunks = (total + CHUNK - 1) / CHUNK;
+            if c.1 >= nchunks {
+                c.0 += 1;
+                c.1 = 0;
+                continue;
+            }
+            let k = c.1;
+            let count = (total - k + nchunks - 1) / nchunks;
+            c.1 += 1;
+            self.issued[c.0].store(c.1, Ordering::SeqCst);
+            return Some((FAMS[c.0], k, count, nchunks));
+        }
+    }
+}
+
+fn manager(slot: usize, sw: &Sweep) -> Vec<FamAcc> {
+    let mut accs: Vec<FamAcc> = (0..FAMS.len()).map(|_| FamAcc::default()).collect();
+    let mut worker: Option<Worker> = None;
+    let mut spawn_failures = 0;
+    while let Some((fam, first, count, stride)) = sw.next_chunk() {
+        let acc = &mut accs[fam.id()];
+        let end = first + count * stride;
+        let mut next = first;
+        while next < end {
+            if worker.is_none() {
+                match Worker::spawn(sw.thorough, &sw.scratch, &format!("w{slot}")) {
+                    Ok(w) => worker = Some(w),
+                    Err(e) => {
+                        spawn_failures += 1;
+                        if spawn_failures > 5 {
+                            sw.machinery.lock().unwrap().push(format!("manager {slot}: {e}"));
+                            return accs;
+                        }
+                        continue;
+                    }
+                }
+            }
+            let cmd = format!("B {} {} {} {}\n", fam.id(), next, (end - next) / stride, stride);
+            {
+                let w = worker.as_mut().unwrap();
+                if w.stdin.write_all(cmd.as_bytes()).and_then(|_| w.stdin.flush()).is_err() {
+                    // dead before it could be asked: nothing was in flight
+                    if let Some(w) = worker.take() {
+                        w.kill();
+                    }
+                    acc.respawns += 1;
+                    spawn_failures += 1;
+                    if spawn_failures > 50 {
+                        sw.machinery.lock().unwrap().push(format!("manager {slot}: workers keep dying before accepting work"));
+                        return accs;
+                    }
+                    continue;
+                }
+            }
+            let mut fl = Flight::default();
+            loop {
+                match next_event(&mut worker, &mut fl) {
+                    Got::Record(r) => {
+                        if r.idx != next {
+                            sw.machinery.lock().unwrap().push(format!("{}: record for case {} while {} was expected", fam.name(), r.idx, next));
+                        }
+                        acc.record(&r);
+                        next = r.idx + stride;
+                        sw.done.fetch_add(1, Ordering::Relaxed);
+                    }
+                    Got::BatchEnd => {
+                        next = end;
+                        break;
+                    }
+                    Got::Failed(s) => {
+                        // records are written case by case, so the case in flight is `next`
+                        acc.respawns += 1;
+                        if let Some(e) = acc.record_single(next, s) {
+                            sw.machinery.lock().unwrap().push(format!("{} #{next}: {e}", fam.name()));
+                        }
+                        sw.done.fetch_add(1, Ordering::Relaxed);
+                        next += stride;
+                        break;
+                    }
+                }
+            }
+        }
+    }
+    if let Some(mut w) = worker.take() {
+        drop(w.stdin);
+        let _ = w.child.wait();
+    }
+    accs
+}
+
+fn replay_choices(thorough: bool, idx: u64) -> Vec<u32> {
+    vec![thorough as u32, (idx >> 32) as u32, (idx & 0xffff_ffff) as u32]
+}
+
+pub fn run(rep: &mut vx::Report) {
+    rep.level = "fault_enumeration";
+    let scratch = vx::verif_root().join(".scratch").join(format!("C01-{}", std::process::id()));
+    let _ = std::fs::create_dir_all(&scratch);
+    struct Cleanup(std::path::PathBuf);
+    impl Drop for Cleanup {
+        fn drop(&mut self) {
+            let _ = std::fs::remove_dir_all(&self.0);
+        }
+    }
+    let _cleanup = Cleanup(scratch.clone());
+
+    // ---------------------------------------------------------------- replay of one case
+    if let Some(t) = &rep.replay {
+        let Some(fam) = Fam::from_name(&t.section) else { return };
+        if t.choices.len() != 3 {
+            return;
+        }
+        let thorough = t.choices[0] == 1;
+        let idx = ((t.choices[1] as u64) << 32) | t.choices[2] as u64;
+        let space = Space::new(thorough);
+        write_seed_cache(&scratch.join("seeds.bin"), &space.seeds);
+        rep.replay_ran = true;
+        if idx >= space.cases(fam) {
+            println!("replay: index {idx} outside family {} ({} cases)", fam.name(), space.cases(fam));
+            return;
+        }
+        println!("replay section={} tier={} case={}", fam.name(), if thorough { "thorough" } else { "quick" }, serde_json::to_string(&space.describe(fam, idx)).unwrap_or_default());
+        let (bytes, _) = space.build(fam, idx / NP, false);
+        println!("input ({} bytes): {}", bytes.len(), vx::show_bytes(&bytes, 6000));
+        let mut acc = FamAcc::default();
+        let s = run_single(thorough, &scratch, "replay", fam, idx);
+        println!("result: {s:?}");
+        if let Some(e) = acc.record_single(idx, s) {
+            rep.machinery_error(e);
+        }
+        for (k, v) in acc.viol {
+            println!("violation key={k} detail={}", v.detail);
+            rep.replay_hits.push(vx::Violation { key: k, detail: v.detail });
+        }
+        return;
+    }
+
+    let thorough = rep.tier.is_thorough();
+    let t_start = Instant::now();
+    let space = Space::new(thorough);
+    write_seed_cache(&scratch.join("seeds.bin"), &space.seeds);
+    rep.rule(
+        "a case = (input, preset): input = one member of a mutation family applied to one seed file (or one micro-grammar / nesting document), preset in {strict, default, reader_new(=PdfReader::new), tolerant, lenient, skip_errors}; \
+         cases are numbered family by family and every index is executed in an isolated worker process. distinct_inputs = distinct input byte strings; distinct_outcomes = distinct outcome signatures \
+         (open result class, page count, per-phase ok/err counts, or panic key / crash / hang); non-trivial = the file opened and at least one indirect object was loaded as a non-null value.",
+    );
+    rep.assume("the oracle is 'every step returns Ok or Err': no panic (overflow checks on), no abnormal process end, <= 5 s CPU per case, <= 1 GiB live heap per worker (counting global allocator refuses the allocation that would cross it)");
+    rep.assume("refpdf::builder/filters produce the seed files (strict-validated below); one seed is the repository fixture interop_qpdf_rc4-40_empty.pdf, one is written by the library's own writer");
+    rep.assume("ParseOptions::lenient() is compared field by field (Debug rendering) with ParseOptions::tolerant() at run time; when identical, the lenient case is not executed a second time and is counted separately");
+    rep.assume("pages beyond the first 12 and object numbers beyond max-object-of-seed+3 (gen 0 only) are not walked by the driver");
+    for n in &space.notes {
+        rep.note("seed_note", json!(n));
+    }
+
+    // ---------------------------------------------------------------- seeds: validate + baseline
+    {
+        let t0 = Instant::now();
+        let mut st = vx::SectionStats { name: "seed-baseline".into(), mode: "FULL".into(), exhaustive: true, ..Default::default() };
+        let mut outs = HashSet::new();
+        let mut table = Vec::new();
+        for s in &space.seeds {
+            if s.origin.starts_with("refpdf") || s.origin == "hand-assembled" {
+                let issues = refpdf::file::validate(&s.bytes);
+                if !issues.is_empty() {
+                    rep.machinery_error(format!("seed {} does not pass the strict validator: {:?}", s.name, issues));
+                }
+            }
+            let mut row = Vec::new();
+            let mut any_full = false;
+            for p in 0..PRESETS.len() {
+                let r = vx::guard(|| drive(&s.bytes, p, s.max_obj + 3));
+                st.executions += 1;
+                match r {
+                    Ok((sig, nt)) => {
+                        let want = format!("open:ok|pc:{}|pg:{}/0|", s.expect_pages, s.expect_pages);
+                        if sig.starts_with(&want) && nt && sig.contains("|tx:ok") {
+                            any_full = true;
+                            st.distinct_nontrivial += 1;
+                        }
+                        outs.insert(vx::h64(&sig));
+                        row.push(json!({"preset": PRESETS[p], "outcome": sig}));
+                    }
+                    Err(pmsg) => {
+                        outs.insert(vx::h64(&pmsg));
+                        row.push(json!({"preset": PRESETS[p], "outcome": format!("PANIC {pmsg}")}));
+                    }
+                }
+            }
+            if !any_full {
+                rep.machinery_error(format!("seed {} is not read completely under any preset: {}", s.name, serde_json::to_string(&row).unwrap_or_default()));
+            }
+            table.push(json!({"seed": s.name, "origin": s.origin, "bytes": s.bytes.len(), "numeric_slots": s.scan.slots.len(), "streams": s.scan.streams.len(),
+                "xref_stream_payload_fields": s.xrefstms.iter().map(|x| x.rows() * 3).sum::<usize>(), "objstm_payload_tokens": s.objstms.iter().map(|o| o.toks.len()).sum::<usize>(), "baseline": row}));
+        }
+        st.states = st.executions;
+        st.transitions = st.executions;
+        st.evaluations = st.executions;
+        st.distinct_inputs = space.seeds.len() as u64;
+        st.distinct_outcomes = outs.len() as u64;
+        st.max_depth = 0;
+        st.samples = table.iter().take(3).cloned().collect();
+        st.wall_s = t0.elapsed().as_secs_f64();
+        rep.note("seeds", json!(table));
+        rep.add_section(st, vec![]);
+    }
+    if let Ok(dir) = std::env::var("C01_DUMP") {
+        let _ = std::fs::create_dir_all(&dir);
+        for s in &space.seeds {
+            let _ = std::fs::write(format!("{dir}/{}.pdf", s.name), &s.bytes);
+            eprintln!("seed {}: streams {:?}", s.name, s.scan.streams);
+            eprintln!("   offtoks {:?}", s.offtoks);
+            for (k, sl) in s.scan.slots.iter().enumerate() {
+                eprintln!("   {}", space.slot_label(space.seeds.iter().position(|x| x.name == s.name).unwrap(), k));
+                let _ = sl;
+            }
+        }
+    }
+    if std::env::var("C01_SEEDS_ONLY").is_ok() {
+        return;
+    }
+
+    // ---------------------------------------------------------------- the sweep
+    let wall_cap = std::env::var("C01_WALL_CAP_S").ok().and_then(|s| s.parse::<f64>().ok()).unwrap_or(if thorough { 840.0 } else { 55.0 });
+    let only: Option<String> = std::env::var("C01_ONLY").ok();
+    let totals: Vec<u64> = FAMS.iter().map(|f| if only.as_deref().map(|o| o.split(',').any(|x| x == f.name())).unwrap_or(true) { space.cases(*f) } else { 0 }).collect();
+    let sw = Sweep {
+        thorough,
+        scratch: scratch.clone(),
+        totals: totals.clone(),
+        cursor: Mutex::new((0, 0)),
+        issued: (0..FAMS.len()).map(|_| AtomicU64::new(0)).collect(),
+        deadline: t_start + Duration::from_secs_f64(wall_cap),
+        capped: AtomicBool::new(false),
+        machinery: Mutex::new(Vec::new()),
+        done: AtomicU64::new(0),
+    };
+    let nworkers = vx::default_threads().max(1);
+    let t_sweep = Instant::now();
+    let mut merged: Vec<FamAcc> = (0..FAMS.len()).map(|_| FamAcc::default()).collect();
+    let finished = AtomicBool::new(false);
+    std::thread::scope(|s| {
+        {
+            let (sw, finished) = (&sw, &finished);
+            s.spawn(move || {
+                let mut last = Instant::now();
+                while !finished.load(Ordering::SeqCst) {
+                    std::thread::sleep(Duration::from_millis(200));
+                    if last.elapsed() >= Duration::from_secs(30) {
+                        last = Instant::now();
+                        let c = sw.cursor.lock().unwrap();
+                        eprintln!("[C01] progress: {} cases done, at family {} index {} of {}, {:.0} s", sw.done.load(Ordering::Relaxed), FAMS.get(c.0).map(|f| f.name()).unwrap_or("-"), c.1, sw.totals.get(c.0).copied().unwrap_or(0), t_sweep.elapsed().as_secs_f64());
+                    }
+                }
+            });
+        }
+        let hs: Vec<_> = (0..nworkers).map(|slot| { let sw = &sw; s.spawn(move || manager(slot, sw)) }).collect();
+        for h in hs {
+            let accs = h.join().expect("manager thread");
+            for (i, a) in accs.into_iter().enumerate() {
+                merged[i].merge(a);
+            }
+        }
+        finished.store(true, Ordering::SeqCst);
+    });
+    let sweep_wall = t_sweep.elapsed().as_secs_f64();
+    for m in sw.machinery.lock().unwrap().drain(..) {
+        rep.machinery_error(m);
+    }
+    let total_cpu: u64 = merged.iter().map(|a| a.cpu_total_us).sum::<u64>().max(1);
+    for (i, fam) in FAMS.iter().enumerate() {
+        let total = totals[i];
+        if total == 0 {
+            continue;
+        }
+        let acc = std::mem::take(&mut merged[i]);
+        let issued = sw.issued[i].load(Ordering::SeqCst);
+        let mut st = vx::SectionStats { name: fam.name().into(), mode: if *fam == Fam::NumPairs { "FULL(pairs)".into() } else { "FULL".into() }, ..Default::default() };
+        st.executions = acc.execs;
+        st.evaluations = acc.execs;
+        st.states = acc.execs;
+        st.transitions = acc.execs;
+        st.distinct_inputs = acc.inputs.len() as u64;
+        st.distinct_outcomes = acc.outcomes.len() as u64;
+        st.distinct_nontrivial = acc.nontriv.len() as u64;
+        st.max_depth = if *fam == Fam::NumPairs { 2 } else { 1 };
+        if acc.execs + acc.identical_preset < total {
+            st.caps_hit.push(format!("wall cap {wall_cap:.0} s reached: {} of {total} cases run ({} of {} strided chunks handed out; chunk k holds the cases k, k+S, k+2S, …)", acc.execs + acc.identical_preset, issued, (total + CHUNK - 1) / CHUNK));
+        }
+        st.exhaustive = st.caps_hit.is_empty();
+        let step = (total / 6).max(1);
+        let mut k = 0;
+        while k < total && st.samples.len() < 8 {
+            st.samples.push(space.describe(*fam, k));
+            k += step;
+        }
+        st.samples.push(space.describe(*fam, total - 1));
+        st.wall_s = sweep_wall * acc.cpu_total_us as f64 / total_cpu as f64;
+        st.extra.insert("inputs".into(), json!(space.inputs(*fam)));
+        st.extra.insert("presets".into(), json!(PRESETS));
+        st.extra.insert("cases_total".into(), json!(total));
+        st.extra.insert("cases_not_rerun_because_lenient_equals_tolerant".into(), json!(acc.identical_preset));
+        st.extra.insert("opened_ok".into(), json!(acc.opened));
+        st.extra.insert("nontrivial_cases".into(), json!(acc.nontriv_cases));
+        st.extra.insert("panicking_cases".into(), json!(acc.panics));
+        st.extra.insert("crashed_cases".into(), json!(acc.crashes));
+        st.extra.insert("hung_cases".into(), json!(acc.hangs));
+        st.extra.insert("worker_respawns".into(), json!(acc.respawns));
+        st.extra.insert("max_peak_heap_bytes".into(), json!(acc.max_peak_kib * 1024));
+        st.extra.insert("max_peak_heap_case".into(), json!(acc.max_peak_idx));
+        st.extra.insert("max_case_cpu_ms".into(), json!(acc.max_cpu_us as f64 / 1000.0));
+        st.extra.insert("max_case_cpu_case".into(), json!(acc.max_cpu_idx));
+        st.extra.insert("cpu_seconds".into(), json!(acc.cpu_total_us as f64 / 1e6));
+        let found: Vec<vx::FoundViolation> = acc
+            .viol
+            .iter()
+            .map(|(k, v)| {
+                let d = space.describe(*fam, v.first_idx);
+                vx::FoundViolation {
+                    key: k.clone(),
+                    detail: format!("{} | first case: {}", v.detail, serde_json::to_string(&d).unwrap_or_default()),
+                    section: fam.name().into(),
+                    choices: replay_choices(thorough, v.first_idx),
+                    labels: vec!["tier(0=quick,1=thorough)".into(), "case_index_hi".into(), "case_index_lo".into()],
+                    count: v.count,
+                    rendered: Some(d),
+                }
+            })
+            .collect();
+        rep.add_section(st, found);
+    }
+    rep.note("workers", json!(nworkers));
+    rep.note("family_cases", json!(FAMS.iter().map(|f| (f.name().to_string(), json!(space.cases(*f)))).collect::<serde_json::Map<String, Value>>()));
+    rep.note("lenient_preset_identical_to_tolerant", json!(lenient_is_tolerant()));
+    rep.note("sweep_wall_s", json!(sweep_wall));
+    rep.note("cases_per_second", json!(sw.done.load(Ordering::Relaxed) as f64 / sweep_wall.max(1e-9)));
+    rep.note("catalogue", json!(CAT));
+    rep.note("pair_catalogue", json!(PAIR_CAT));
 }
